@@ -14,7 +14,7 @@ import ast
 from ..core import src, AnalysisError, parent
 from ..resolve import Program, inline_locals, expand
 from .. import units as U
-from ..bufflow import Interp, State, Tok, Roots, Sym, OPAQUE
+from ..bufflow import Interp, State, Tok, Roots, Sym, OPAQUE, Fresh
 from ..geometry import ShapeFlow, canon_product
 from .. import permcheck
 
@@ -36,16 +36,660 @@ def unwrap(x):
     return x
 
 
+# --------------------------------------------------------------------------
+# which array parameters of a routine must not denote the same memory: a static effect summary (no execution)
+ARRAY_NAMES = ("source", "dest", "buf", "data", "tobuffer")
+_VIEW_METHODS = {"reshape", "transpose", "view", "swapaxes", "squeeze", "ravel"}
+_VIEW_ATTRS = {"T", "real", "imag", "flat", "base"}
+_NP_VIEWS = {"split", "transpose", "reshape", "real", "imag", "atleast_1d", "swapaxes", "moveaxis", "squeeze", "array_split",
+             "asarray", "ravel"}
+_COLLECTIVES = ("Alltoall", "Alltoallv", "Allgather", "Allgatherv", "Gather", "Gatherv", "Scatter", "Sendrecv")
+
+
+class Effects:
+    """reads / writes / must-differ pairs of the array parameters of one method, from its statements in program order (which
+    parameters a local is a view of is followed statement by statement; the arms of an `if` are joined; a loop body is read twice).
+    A pair {p, q} must differ when (a) a store inside a loop writes (a view of) q from (a view of) p: the iterations read what the
+    earlier ones overwrote; (b) a collective sends from p and receives in q (MPI forbids overlapping buffers); (c) q is written and
+    p is read afterwards (or in the same loop): with p == q the later read sees the new contents; (d) a callee needs it."""
+
+    def __init__(self, owner, name, fn):
+        self.owner, self.name, self.fn = owner, name, fn
+        self.params = [a.arg for a in fn.args.args if a.arg in ARRAY_NAMES]
+        self.reads, self.writes = set(), set()
+        self.pairs = {}            # frozenset({p, q}) -> reason
+        self.hard = {}             # frozenset({p, q}) -> True: overlapping is certainly wrong; False: it changes what a later read sees
+        self.static_alias = []     # (call node, message): one expression passed for two parameters that must differ
+        self.events = []           # (reads, writes, loops, node, kind, arms)
+
+
+def _view_roots(e, env):
+    """the parameters an expression is a view of (env: local name -> set of parameters)"""
+    if isinstance(e, ast.Name):
+        return set(env.get(e.id, ()))
+    if isinstance(e, ast.Subscript):
+        return _view_roots(e.value, env)
+    if isinstance(e, ast.Attribute) and e.attr in _VIEW_ATTRS:
+        return _view_roots(e.value, env)
+    if isinstance(e, ast.Starred):
+        return _view_roots(e.value, env)
+    if isinstance(e, ast.IfExp):
+        return _view_roots(e.body, env) | _view_roots(e.orelse, env)
+    if isinstance(e, (ast.Tuple, ast.List)):
+        out = set()
+        for x in e.elts:
+            out |= _view_roots(x, env)
+        return out
+    if isinstance(e, ast.Call):
+        f = e.func
+        if isinstance(f, ast.Attribute) and isinstance(f.value, ast.Name) and f.value.id in ("np", "numpy"):
+            if f.attr in _NP_VIEWS and e.args:
+                return _view_roots(e.args[0], env)
+            return set()
+        if isinstance(f, ast.Attribute) and f.attr in _VIEW_METHODS:
+            return _view_roots(f.value, env)
+        if isinstance(f, ast.Name) and f.id in ("enumerate", "zip", "reversed", "list", "tuple", "iter"):
+            out = set()
+            for x in e.args:
+                out |= _view_roots(x, env)
+            return out
+    return set()
+
+
+def _read_roots(e, env):
+    """every parameter some part of the expression reads"""
+    out = set()
+    for x in ast.walk(e):
+        if isinstance(x, ast.Name) and isinstance(x.ctx, ast.Load):
+            out |= set(env.get(x.id, ()))
+    return out
+
+
+def _bind(target, roots, env):
+    if isinstance(target, ast.Name):
+        env[target.id] = set(roots)
+    elif isinstance(target, (ast.Tuple, ast.List)):
+        for x in target.elts:
+            _bind(x, roots, env)
+    elif isinstance(target, ast.Starred):
+        _bind(target.value, roots, env)
+
+
+def _join(a, b):
+    out = {k: set(v) for k, v in a.items()}
+    for k, v in b.items():
+        out.setdefault(k, set()).update(v)
+    return out
+
+
+def _own_class_call(call, cls_name, meths):
+    """name of the method of the same class a call invokes (self.m(...), Cls.m(...), cls.m(...)), else None"""
+    f = call.func
+    if isinstance(f, ast.Attribute) and isinstance(f.value, ast.Name) and f.value.id in ("self", "cls", cls_name) and f.attr in meths:
+        return f.attr
+    return None
+
+
+def class_effects(mod, cls_name):
+    """Effects of every method of the class (callees summarised first; recursion through `transpose` uses its contract)"""
+    cache = mod.__dict__.setdefault("_c01_effects", {})
+    if cls_name in cache:
+        return cache[cls_name]
+    cdef = mod.cls(cls_name)
+    meths = {m.name: m for m in cdef.body if isinstance(m, ast.FunctionDef)}
+    done, active = {}, set()
+
+    def contract(name):
+        """the public transpose (and anything reached recursively): source -> dest, scratch in buf (or in source)"""
+        e = Effects(cls_name, name, meths[name])
+        ps = e.params
+        e.reads, e.writes = set(ps), set(ps)
+        for i, a in enumerate(ps):
+            for b in ps[i + 1:]:
+                e.pairs[frozenset((a, b))] = f"{name} moves the field from one of them to the other through the third"
+                e.hard[frozenset((a, b))] = True
+        return e
+
+    def summarise(name):
+        if name in done:
+            return done[name]
+        if name in active:
+            return contract(name)
+        active.add(name)
+        fn = meths[name]
+        e = Effects(cls_name, name, fn)
+        arms = []          # (if node, arm) the statement being visited is control dependent on (exclusive alternatives)
+        rec = [True]
+
+        def add_pair(p, q, why, hard=True):
+            if rec[0] and p != q and p in e.params and q in e.params:
+                k = frozenset((p, q))
+                if k not in e.pairs or (hard and not e.hard.get(k)):
+                    e.pairs[k] = why
+                    e.hard[k] = hard
+
+        def event(reads, writes, loops, node, kind):
+            if not rec[0]:
+                return
+            e.events.append((set(reads), set(writes), tuple(loops), node, kind, tuple(arms)))
+            e.reads |= set(reads)
+            e.writes |= set(writes)
+
+        def simple(st, loops, env):
+            for c in [c for c in ast.walk(st) if isinstance(c, ast.Call)]:
+                f = c.func
+                nm = f.attr if isinstance(f, ast.Attribute) else f.id if isinstance(f, ast.Name) else ""
+                if nm in _COLLECTIVES and len(c.args) >= 2:
+                    def first(x):
+                        return x.elts[0] if isinstance(x, (ast.Tuple, ast.List)) and x.elts else x
+                    r_, w_ = _view_roots(first(c.args[0]), env), _view_roots(first(c.args[1]), env)
+                    event(r_, w_, loops, c, "collective")
+                    for p in r_:
+                        for q in w_:
+                            add_pair(p, q, f"`{src(c)[:60]}` sends from `{p}` and receives in `{q}`: MPI forbids overlapping send and receive buffers")
+                    continue
+                if isinstance(f, ast.Attribute) and src(f) in ("np.copyto", "numpy.copyto") and len(c.args) >= 2:
+                    event(_read_roots(c.args[1], env), _view_roots(c.args[0], env), loops, c, "store")
+                    continue
+                g = _own_class_call(c, cls_name, meths)
+                ge = None
+                if g is None and isinstance(f, ast.Attribute) and f.attr == "transpose" and len(c.args) + len(c.keywords) >= 4 \
+                        and "transpose" in meths and not (isinstance(f.value, ast.Name) and f.value.id in ("np", "numpy")):
+                    g, ge = "transpose", contract("transpose")          # another manager's transpose: same contract
+                elif g is not None:
+                    ge = summarise(g)
+                if g is None:
+                    continue
+                am = call_args(c, meths[g])
+                if am is None:
+                    continue
+                amap = {p: _view_roots(v, env) for p, v in am.items() if p in ARRAY_NAMES and v is not None}
+                r_ = set().union(*[amap.get(p, set()) for p in ge.reads]) if ge.reads else set()
+                w_ = set().union(*[amap.get(p, set()) for p in ge.writes]) if ge.writes else set()
+                event(r_, w_, loops, c, "call")
+                for pair, why in ge.pairs.items():
+                    a, b = sorted(pair)
+                    for p in amap.get(a, set()):
+                        for q in amap.get(b, set()):
+                            add_pair(p, q, f"`{src(c)[:70]}` passes them as `{a}` and `{b}` of {g}: {why}", hard=ge.hard.get(pair, True))
+                    va, vb = am.get(a), am.get(b)
+                    if rec[0] and ge.hard.get(pair, True) and isinstance(va, ast.Name) and isinstance(vb, ast.Name) and va.id == vb.id \
+                            and va.id in e.params and env.get(va.id) == {va.id}:
+                        e.static_alias.append((c, f"`{src(c)[:90]}` passes the array `{va.id}` both as `{a}` and as `{b}` of {g}, "
+                                               f"which must not overlap: {why}"))
+            if isinstance(st, (ast.Assign, ast.AugAssign)):
+                tgts = st.targets if isinstance(st, ast.Assign) else [st.target]
+                for t in tgts:
+                    w_ = set()
+                    if isinstance(t, ast.Subscript) or (isinstance(t, ast.Attribute) and t.attr == "flat"):
+                        w_ = _view_roots(t.value, env)
+                    elif isinstance(st, ast.AugAssign) and isinstance(t, ast.Name):
+                        w_ = _view_roots(t, env)
+                    if not w_:
+                        continue
+                    r_ = _read_roots(st.value, env) | (w_ if isinstance(st, ast.AugAssign) else set())
+                    event(r_, w_, loops, st, "store")
+                    if loops:
+                        for q in w_:
+                            for p in r_:
+                                add_pair(p, q, f"`{src(st)[:70]}` (in a loop) fills `{q}` piece by piece from `{p}`: with one array for both, "
+                                         "later pieces are built from elements that earlier iterations have already overwritten")
+            # bindings made by the statement
+            if isinstance(st, ast.Assign):
+                for t in st.targets:
+                    if isinstance(t, (ast.Tuple, ast.List)) and isinstance(st.value, (ast.Tuple, ast.List)) and len(t.elts) == len(st.value.elts):
+                        vals = [_view_roots(b, env) for b in st.value.elts]
+                        for a_, v_ in zip(t.elts, vals):
+                            _bind(a_, v_, env)
+                    elif isinstance(t, (ast.Name, ast.Tuple, ast.List)):
+                        _bind(t, _view_roots(st.value, env), env)
+
+        def visit(stmts, loops, env):
+            """-> the names-to-parameters map after the statements (env is not modified)"""
+            env = {k: set(v) for k, v in env.items()}
+            pushed = 0
+            for st in stmts:
+                if isinstance(st, (ast.FunctionDef, ast.ClassDef)):
+                    continue
+                if isinstance(st, (ast.For, ast.While)):
+                    was = rec[0]
+                    rec[0] = False
+                    e1 = dict(env)
+                    if isinstance(st, ast.For):
+                        _bind(st.target, _view_roots(st.iter, env), e1)
+                    e1 = _join(env, visit(st.body, loops + [st], e1))
+                    rec[0] = was
+                    if isinstance(st, ast.For):
+                        _bind(st.target, _view_roots(st.iter, e1), e1)
+                    env = _join(e1, visit(st.body, loops + [st], e1))
+                    env = _join(env, visit(getattr(st, "orelse", []), loops, env))
+                    continue
+                if isinstance(st, ast.If):
+                    arms.append((st, 0))
+                    ea = visit(st.body, loops, env)
+                    arms[-1] = (st, 1)
+                    eb = visit(st.orelse, loops, env)
+                    arms.pop()
+                    leaves = bool(st.body) and isinstance(st.body[-1], (ast.Return, ast.Raise))
+                    if leaves and not loops:
+                        # `if c: ...; return` - what follows in this block is the other alternative
+                        arms.append((st, 1))
+                        pushed += 1
+                        env = eb
+                    else:
+                        env = _join(ea, eb)
+                    continue
+                if isinstance(st, (ast.With, ast.Try)):
+                    env = visit(getattr(st, "body", []), loops, env)
+                    for h in getattr(st, "handlers", []):
+                        env = _join(env, visit(h.body, loops, env))
+                    env = visit(getattr(st, "orelse", []), loops, env)
+                    env = visit(getattr(st, "finalbody", []), loops, env)
+                    continue
+                simple(st, loops, env)
+            for _ in range(pushed):
+                arms.pop()
+            return env
+        visit(fn.body, [], {p: {p} for p in e.params})
+        # written, then another parameter read afterwards (or in the same loop)
+        for i, (r1, w1, l1, n1, k1, c1) in enumerate(e.events):
+            for j, (r2, w2, l2, n2, k2, c2) in enumerate(e.events):
+                if i == j:
+                    continue
+                shared = [x for x in l1 if any(x is y for y in l2)]
+                if not shared and any(a[0] is b[0] and a[1] != b[1] for a in c1 for b in c2):
+                    continue          # alternatives of one `if`: never both on a path
+                if j > i or shared:
+                    for q in w1:
+                        for p in r2:
+                            add_pair(p, q, f"`{q}` is written by `{src(n1)[:50]}` and `{p}` is read by `{src(n2)[:50]}` afterwards: with one array "
+                                     "for both, the read sees the new contents", hard=False)
+        active.discard(name)
+        done[name] = e
+        return e
+    for nm in meths:
+        summarise(nm)
+    cache[cls_name] = done
+    return done
+
+
+class FlowInterp(Interp):
+    """the field-location interpreter with what the layout checks need on top of the engine: (1) a list that is appended to is
+    no longer known; (2) tuples, list concatenation, zip/enumerate of known lists, identity tests on buffers; (3) comparisons of
+    symbolic quantities are remembered along a path (sign of a-b), so that contradictory branch combinations are not explored;
+    (4) single-step routines are recognised by their signature (source, dest, layout_source, layout_dest), whatever their name;
+    (5) the layouts of the enclosing step are known inside the kernels it calls (view extents); (6) two array parameters bound to
+    one array are reported when the callee's effect summary says they must differ; (7) an array argument that cannot be followed
+    makes the path undecided, never wrong."""
+
+    LIST_MUTATORS = {"append", "extend", "insert", "pop", "remove", "clear", "sort", "reverse"}
+
+    def __init__(self, *a, effects=None, **k):
+        super().__init__(*a, **k)
+        self.laystack = []
+        self.effects = effects or {}
+
+    # ------------------------------------------------------------ expressions
+    def ev(self, e, st, fq):
+        if isinstance(e, ast.Call):
+            f = e.func
+            nm = f.id if isinstance(f, ast.Name) else None
+            if nm in ("zip", "enumerate", "reversed") and e.args and all(k.arg == "start" and nm == "enumerate" for k in e.keywords):
+                args = [self.ev(a, st, fq) for a in e.args] + [self.ev(k.value, st, fq) for k in e.keywords]
+                if nm == "zip" and all(isinstance(a, (list, tuple)) for a in args):
+                    return [tuple(x) for x in zip(*args)]
+                if nm == "enumerate" and isinstance(args[0], (list, tuple)) and (len(args) == 1 or isinstance(args[1], int)):
+                    return [tuple(x) for x in enumerate(args[0], *args[1:2])]
+                if nm == "reversed" and isinstance(args[0], (list, tuple)):
+                    return list(reversed(args[0]))
+                return OPAQUE
+            if nm in ("list", "tuple") and len(e.args) == 1:
+                v = self.ev(e.args[0], st, fq)
+                if isinstance(v, (list, tuple)):
+                    return list(v) if nm == "list" else tuple(v)
+            if isinstance(f, ast.Attribute) and isinstance(f.value, ast.Name) and f.value.id in ("np", "numpy") \
+                    and f.attr in ("empty", "zeros", "ones", "full", "ndarray", "empty_like", "zeros_like", "ones_like", "full_like"):
+                return Fresh(frozenset())          # a new local array that holds no field data yet
+        if isinstance(e, ast.Subscript):
+            base = self.ev(e.value, st, fq)
+            if isinstance(base, tuple):
+                if isinstance(e.slice, ast.Slice):
+                    lo = self.ev(e.slice.lower, st, fq) if e.slice.lower else None
+                    hi = self.ev(e.slice.upper, st, fq) if e.slice.upper else None
+                    if all(x is None or (isinstance(x, int) and not isinstance(x, bool)) for x in (lo, hi)) and e.slice.step is None:
+                        return base[lo:hi]
+                    return OPAQUE
+                i = self.ev(e.slice, st, fq)
+                if isinstance(i, int) and not isinstance(i, bool) and -len(base) <= i < len(base):
+                    return base[i]
+                return OPAQUE
+        if isinstance(e, ast.BinOp) and isinstance(e.op, ast.Add):
+            a, b = self.ev(e.left, st, fq), self.ev(e.right, st, fq)
+            if isinstance(a, list) and isinstance(b, list):
+                return a + b
+            if isinstance(a, tuple) and isinstance(b, tuple):
+                return a + b
+        if isinstance(e, ast.Attribute):
+            base = self.ev(e.value, st, fq) if src(e) not in st.env else None
+            if isinstance(base, Sym) and base.kind == "mgr":
+                return Sym("mattr", (base.arg, e.attr))
+        if isinstance(e, ast.Compare) and len(e.ops) == 1:
+            a, b = self.ev(e.left, st, fq), self.ev(e.comparators[0], st, fq)
+            op = e.ops[0]
+            if isinstance(a, Roots) and isinstance(b, Roots) and isinstance(op, (ast.Is, ast.IsNot)):
+                if len(a) == 1 and a == b:
+                    return isinstance(op, ast.Is)
+                if not (set(a) & set(b)):
+                    return isinstance(op, ast.IsNot)
+                return OPAQUE
+            if isinstance(a, Sym) and isinstance(b, Sym) and a != b and type(op) in _CMP_SIGNS \
+                    and {a.kind, b.kind} <= {"mattr", "lattr"}:
+                return self.decide_cmp(Sym("cmp", (type(op).__name__, repr(a), repr(b))), st)
+        if isinstance(e, ast.UnaryOp) and isinstance(e.op, ast.Not):
+            v = self.ev(e.operand, st, fq)
+            if isinstance(v, Sym) and v.kind == "cmp":
+                return Sym("cmp", (_CMP_NEG[v.arg[0]], v.arg[1], v.arg[2]))
+        if isinstance(e, ast.IfExp):
+            t = self.ev(e.test, st, fq)
+            if isinstance(t, Sym) and t.kind == "cmp":
+                t = self.decide_cmp(t, st)
+            if isinstance(t, bool):
+                return self.ev(e.body if t else e.orelse, st, fq)
+            a, b = self.ev(e.body, st, fq), self.ev(e.orelse, st, fq)
+            return a if repr(a) == repr(b) else OPAQUE
+        return super().ev(e, st, fq)
+
+    # ------------------------------------------------------------ remembered comparisons
+    @staticmethod
+    def _signs(v):
+        op, a, b = v.arg
+        s = _CMP_SIGNS[getattr(ast, op)]
+        if a > b:
+            a, b = b, a
+            s = frozenset({"<": ">", ">": "<", "=": "="}[x] for x in s)
+        return (a, b), s
+
+    def decide_cmp(self, v, st):
+        """a comparison whose outcome follows from what the path has already assumed is a constant"""
+        key, s = self._signs(v)
+        have = dict(st.env.get("<facts>", ())).get(key)
+        if have is not None:
+            if have <= s:
+                return True
+            if not (have & s):
+                return False
+        return v
+
+    def learn(self, v, truth, st):
+        key, s = self._signs(v)
+        if not truth:
+            s = frozenset("<=>") - s
+        facts = dict(st.env.get("<facts>", ()))
+        facts[key] = facts.get(key, frozenset("<=>")) & s
+        st.env["<facts>"] = tuple(sorted(facts.items(), key=lambda kv: kv[0]))
+
+    # ------------------------------------------------------------ statements
+    def stmt(self, n, st, fq):
+        if isinstance(n, ast.Expr) and isinstance(n.value, ast.Call) and isinstance(n.value.func, ast.Attribute) \
+                and n.value.func.attr in self.LIST_MUTATORS and isinstance(n.value.func.value, ast.Name) \
+                and isinstance(st.env.get(n.value.func.value.id), list):
+            st.env[n.value.func.value.id] = OPAQUE
+            return [st]
+        if isinstance(n, ast.Expr) and isinstance(n.value, ast.Call) and src(n.value.func) in ("np.copyto", "numpy.copyto") \
+                and len(n.value.args) >= 2:
+            # np.copyto(dst, src) is the store dst[...] = src
+            dst, val = self.ev(n.value.args[0], st, fq), self.ev(n.value.args[1], st, fq)
+            if isinstance(dst, Roots):
+                self.check_extent(st, dst, n, fq, "destination")
+                self.check_extent(st, val, n, fq, "source")
+                self.event(st, self.roots_of(val), set(dst), n, fq)
+                return [st]
+            if not isinstance(dst, Fresh):
+                self.problem(st, "array-argument-undecided", f"the target of `{src(n)[:60]}` could not be followed", n, fq)
+            return [st]
+        if isinstance(n, ast.Expr) and isinstance(n.value, ast.Call):
+            c = n.value
+            nm = c.func.attr if isinstance(c.func, ast.Attribute) else c.func.id if isinstance(c.func, ast.Name) else ""
+            if nm not in _COLLECTIVES and nm not in ("warn", "print", "format", "Barrier", "barrier") and not self.prog.resolve(c, self.rel):
+                given = [a for a in list(c.args) + [k.value for k in c.keywords] if isinstance(self.ev(a, st, fq), Roots)]
+                recv = self.ev(c.func.value, st, fq) if isinstance(c.func, ast.Attribute) else None
+                if given or (isinstance(recv, Roots) and nm not in ("any", "all", "sum", "min", "max")):
+                    # a call that is handed one of the arrays and is not one of the analysed routines: it may write it
+                    self.problem(st, "call-undecided", f"`{src(n)[:70]}` is given an array of the transpose; what it does with it is not known", n, fq)
+                    return [st]
+        if isinstance(n, ast.AugAssign) and isinstance(n.target, ast.Name) and isinstance(st.env.get(n.target.id), list):
+            st.env[n.target.id] = OPAQUE
+            return [st]
+        if isinstance(n, (ast.Continue, ast.Break)):
+            # leave the iteration: nothing more of the body runs for this state (the loop resets the mark)
+            st.env["<loopctl>"] = "continue" if isinstance(n, ast.Continue) else "break"
+            st.ret = True
+            return [st]
+        if isinstance(n, ast.For):
+            it = self.ev(n.iter, st, fq)
+            if not isinstance(it, (list, tuple)):
+                if self.moves_field(n):
+                    self.problem(st, "loop-undecided", f"the iterations of `for {src(n.target)} in {src(n.iter)[:50]}`, which carry out layout steps, "
+                                 "could not be enumerated", n, fq)
+                # unknown sequence: one-or-more iterations, the body is read twice (stability); an element of an array is a view of it
+                x = it if isinstance(it, (Roots, Fresh)) else OPAQUE
+                if isinstance(n.iter, ast.Call) and src(n.iter.func) == "enumerate" and n.iter.args:
+                    inner = self.ev(n.iter.args[0], st, fq)
+                    x = (OPAQUE, inner if isinstance(inner, (Roots, Fresh)) else OPAQUE)
+                it = [x, x]
+            # one pass of the body per element (also `enumerate(x, start=k)`, which the engine reads as start=0)
+            return self.run_loop(n, [st], fq, it)
+        if isinstance(n, ast.Try):
+            # the engine does not enter `try`: body, else and finally are what normally runs (handlers: the exceptional path, not followed)
+            states = self.block(n.body, [st], fq)
+            states = self.block(n.orelse, states, fq) if n.orelse else states
+            if n.finalbody:
+                for s_ in states:
+                    s_.fin_ret, s_.ret = s_.ret, False
+                states = self.block(n.finalbody, states, fq)
+                for s_ in states:
+                    s_.ret = s_.ret or getattr(s_, "fin_ret", False)
+            return states
+        if isinstance(n, ast.While):
+            if self.moves_field(n):
+                self.problem(st, "loop-undecided", f"the iterations of `while {src(n.test)[:50]}`, which carry out layout steps, could not be "
+                             "enumerated", n, fq)
+            return self.run_loop(n, [st], fq, [None, None])
+        if isinstance(n, ast.If):
+            t = self.ev(n.test, st, fq)
+            if isinstance(t, Sym) and t.kind == "cmp":
+                t = self.decide_cmp(t, st)
+            if isinstance(t, Sym) and t.kind == "cmp":
+                ts = src(n.test)
+                a, b = st.fork(), st.fork()
+                a.tok = a.tok.with_(assumed=a.tok.assumed + (ts,))
+                b.tok = b.tok.with_(assumed=b.tok.assumed + ("not (" + ts + ")",))
+                self.learn(t, True, a)
+                self.learn(t, False, b)
+                return self.block(n.body, [a], fq) + self.block(n.orelse, [b], fq)
+            if isinstance(t, bool) and src(n.test) not in self.assume_false:
+                return self.block(n.body if t else n.orelse, [st], fq)
+        if isinstance(n, ast.Assign) and len(n.targets) == 1 and isinstance(n.targets[0], ast.Name) and not isinstance(n.value, ast.Call):
+            v = self.ev(n.value, st, fq)
+            if isinstance(v, Sym) and v.kind == "cmp":
+                st.env[n.targets[0].id] = v
+                return [st]
+        return super().stmt(n, st, fq)
+
+    def run_loop(self, n, states, fq, items):
+        """the body once per item; `continue` ends the pass of a state, `break` takes it out of the loop"""
+        left = []
+        for x in items:
+            if isinstance(n, ast.For):
+                for s_ in states:
+                    if not s_.ret:
+                        self.bind_target(n.target, x, s_)
+            states = self.block(n.body, states, fq)
+            nxt = []
+            for s_ in states:
+                ctl = s_.env.pop("<loopctl>", None)
+                if ctl is not None:
+                    s_.ret = False
+                (left if ctl == "break" else nxt).append(s_)
+            states = self.merge(nxt)
+        out = states
+        if getattr(n, "orelse", None):
+            out = self.block(n.orelse, out, fq)
+        return self.merge(out + left)
+
+    def moves_field(self, loop):
+        """does the loop body call a routine of the analysed classes that is given arrays (a layout step)?"""
+        for c in ast.walk(loop):
+            if isinstance(c, ast.Call) and isinstance(c.func, ast.Attribute):
+                for owner, effs in self.effects.items():
+                    e_ = effs.get(c.func.attr)
+                    if e_ is not None and len(e_.params) >= 2 and src(c.func.value).startswith(("self", "cls", owner)) \
+                            and len(c.args) + len(c.keywords) >= len(e_.params):
+                        return True
+        return False
+
+    def assign(self, t, val, value_node, st, fq, node):
+        if isinstance(t, ast.Subscript):
+            b = t.value
+            while isinstance(b, ast.Subscript):
+                b = b.value
+            if isinstance(b, ast.Name) and isinstance(st.env.get(b.id), Fresh):
+                # a local array: it now also holds what the stored value was computed from
+                st.env[b.id] = Fresh(frozenset(st.env[b.id].derived | self.roots_of(val)))
+                return
+        return super().assign(t, val, value_node, st, fq, node)
+
+    def check_extent(self, st, view, node, fq, side):
+        if st.env.get("<lay_dst>") is None and st.env.get("<lay_src>") is None and self.laystack:
+            saved = (st.env.get("<lay_src>"), st.env.get("<lay_dst>"))
+            st.env["<lay_src>"], st.env["<lay_dst>"] = self.laystack[-1]
+            try:
+                return super().check_extent(st, view, node, fq, side)
+            finally:
+                st.env["<lay_src>"], st.env["<lay_dst>"] = saved
+        return super().check_extent(st, view, node, fq, side)
+
+    # ------------------------------------------------------------ calls
+    def invoke(self, call, q, fn, st, fq):
+        params = [a.arg for a in fn.args.args]
+        if params and params[0] in ("self", "cls"):
+            params = params[1:]
+        dvals = dict(zip(params[len(params) - len(fn.args.defaults):], fn.args.defaults))
+        bound = {}
+        for i, a in enumerate(call.args):
+            if i < len(params):
+                bound[params[i]] = self.ev(a, st, fq)
+        for k in call.keywords:
+            if k.arg in params:
+                bound[k.arg] = self.ev(k.value, st, fq)
+        for p in params:
+            if p not in bound:
+                bound[p] = self.ev(dvals[p], st, fq) if p in dvals else OPAQUE
+        short, owner = q.split(".")[-1], q.split(".")[0]
+        lay_src = bound.get("layout_source", bound.get("source_name"))
+        lay_dst = bound.get("layout_dest", bound.get("dest_name"))
+        is_kernel_step = {"source", "dest", "layout_source", "layout_dest"} <= set(params)
+        is_step = is_kernel_step or short == "transpose"
+        if is_step and lay_src is not None:
+            cur, got = unwrap(st.tok.layout), unwrap(lay_src)
+            if isinstance(got, Sym) and isinstance(cur, Sym) and got != cur:
+                self.problem(st, "layout-bookkeeping", f"step called with source layout `{got}` but the data is in layout `{cur}`", call, fq)
+            elif not isinstance(got, Sym):
+                self.problem(st, "layout-bookkeeping-undecided", f"cannot identify the source layout argument `{src(call)[:60]}`", call, fq)
+        # array arguments: each is a view of known buffers (or None where the parameter may be absent)
+        arrs = [p for p in params if p in ARRAY_NAMES]
+        for p in arrs:
+            v = bound[p]
+            if not (isinstance(v, Roots) or (v is None and (p in dvals or p == "buf"))):
+                self.problem(st, "array-argument-undecided", f"the array passed as `{p}` in `{src(call)[:70]}` could not be followed", call, fq)
+        eff = self.effects.get(owner, {}).get(short)
+        if eff is not None:
+            for i, a in enumerate(arrs):
+                for b in arrs[i + 1:]:
+                    va, vb = bound[a], bound[b]
+                    if isinstance(va, Roots) and isinstance(vb, Roots) and set(va) & set(vb) and frozenset((a, b)) in eff.pairs:
+                        hard = eff.hard.get(frozenset((a, b)), True)
+                        self.problem(st, "aliasing" if hard else "aliasing-undecided",
+                                     f"`{src(call)[:80]}` binds `{a}` and `{b}` of {short} to the same array "
+                                     f"`{'/'.join(sorted(set(va) & set(vb)))}`" + (", but they must not overlap: " if hard else
+                                                                                  "; whether that is intended was not established: ")
+                                     + eff.pairs[frozenset((a, b))], call, fq)
+        use_contract = (q in self.stack) or (short in self.contract_funcs and self.stack) or len(self.stack) >= self.max_depth
+        recv_is_other_mgr = isinstance(call.func, ast.Attribute) and not (isinstance(call.func.value, ast.Name) and call.func.value.id == "self") \
+            and short == "transpose"
+        if recv_is_other_mgr:
+            use_contract = True
+        if use_contract:
+            if short != "transpose":
+                raise AnalysisError(f"recursion through {q} has no contract")
+            s_, d_, b_ = bound.get("source"), bound.get("dest"), bound.get("buf")
+            if not isinstance(s_, Roots) or not isinstance(d_, Roots):
+                self.problem(st, "contract-args-undecided", f"cannot identify buffers in `{src(call)[:60]}`", call, fq)
+                return [(st, OPAQUE)]
+            if set(s_) & set(d_) or (isinstance(b_, Roots) and set(b_) & (set(s_) | set(d_))):
+                self.problem(st, "aliasing", f"`{src(call)[:80]}` calls transpose with overlapping arrays: source, dest and buf must be distinct",
+                             call, fq)
+            self.event(st, set(s_), set(d_), call, fq, what=f"contract {q}({sorted(s_)}->{sorted(d_)})")
+            st.tok = st.tok.with_(writes=st.tok.writes | frozenset(b_ if isinstance(b_, Roots) else s_))
+            if lay_dst is not None:
+                st.tok = st.tok.with_(layout=unwrap(lay_dst))
+            if owner == "LayoutSwapper" and not recv_is_other_mgr:
+                st.env["self._current_manager"] = Sym("mgr", unwrap(lay_dst))
+                st.tok = st.tok.with_(attrs=tuple(x for x in st.tok.attrs if x[0] != "self._current_manager") +
+                                      (("self._current_manager", Sym("mgr", unwrap(lay_dst))),))
+            return [(st, None)]
+        env2 = {k: v for k, v in st.env.items() if k.startswith("self.") or k in ("<same-name>", "<facts>")}
+        env2.update(bound)
+        env2["self"] = OPAQUE
+        env2["<lay_dst>"] = lay_dst if is_kernel_step else None
+        env2["<lay_src>"] = lay_src if is_kernel_step else None
+        callee_state = State(env2, st.tok)
+        self.stack.append(q)
+        if is_kernel_step:
+            self.laystack.append((lay_src, lay_dst))
+        try:
+            outs = self.run(fn, callee_state, q)
+        finally:
+            self.stack.pop()
+            if is_kernel_step:
+                self.laystack.pop()
+        results = []
+        for o in outs:
+            s3 = State(dict(st.env), o.tok)
+            for k, v in o.env.items():
+                if k.startswith("self.") or k == "<facts>":
+                    s3.env[k] = v
+            if is_step and lay_dst is not None:
+                s3.tok = s3.tok.with_(layout=unwrap(lay_dst))
+            results.append((s3, o.retval))
+        return results
+
+
+_CMP_SIGNS = {ast.Lt: frozenset("<"), ast.LtE: frozenset("<="), ast.Gt: frozenset(">"), ast.GtE: frozenset(">="),
+              ast.Eq: frozenset("="), ast.NotEq: frozenset("<>")}
+_CMP_NEG = {"Lt": "GtE", "GtE": "Lt", "Gt": "LtE", "LtE": "Gt", "Eq": "NotEq", "NotEq": "Eq"}
+
+
+def _short_path(assumed):
+    out = []
+    for a in assumed:
+        if not out or out[-1] != a:
+            out.append(a)
+    return "; ".join(out) or "-"
+
+
 def flow_check(chk, prog, rel, cls, entry="transpose", extra_final=None):
     """run the field-location flow over cls.transpose for buf in {None, given} x route lengths"""
     mod = chk.mod(rel)
     fn = mod.func(f"{cls}.{entry}")
     summary = {}
     n_paths = 0
+    effects = {c: class_effects(mod, c) for c in ("LayoutHandler", "LayoutSwapper") if mod.has(c)}
+    alias_seen = set()
     for buf_given in (False, True):
         for n in ROUTE_LENGTHS:
-            it = Interp(prog, rel, cls, chk, {"nSteps": n}, assume_false={"self._buffer_size == 0"},
-                        contract_funcs=("transpose",))
+            it = FlowInterp(prog, rel, cls, chk, {"nSteps": n}, assume_false={"self._buffer_size == 0"},
+                            contract_funcs=("transpose",), effects=effects)
             st = entry_state(buf_given)
             it.stack.append(f"{cls}.{entry}")
             outs = it.run(fn, st, f"{cls}.{entry}")
@@ -58,34 +702,45 @@ def flow_check(chk, prog, rel, cls, entry="transpose", extra_final=None):
                 if "<raises>" in t.assumed:
                     continue
                 n_paths += 1
-                path = "; ".join(a for a in t.assumed) or "-"
+                path = _short_path(t.assumed)
                 same = bool(o.env.get("<same-name>"))
-                # D3/D4/D5 problems recorded along the path
+                RULES = {"stale-read": "D3-no-stale-read", "clobber": "D3-no-clobber", "aliasing": "D1-distinct-buffers",
+                         "layout-bookkeeping": "D4-layout-bookkeeping", "extent": "D5-view-extent"}
+                lost = any(kind not in RULES for kind, *_ in t.problems)
+                # D1/D3/D4/D5 problems recorded along the path
                 for kind, msg, line, construct, fq in t.problems:
-                    rule = {"stale-read": "D3-no-stale-read", "clobber": "D3-no-clobber",
-                            "layout-bookkeeping": "D4-layout-bookkeeping", "extent": "D5-view-extent"}.get(kind)
+                    rule = RULES.get(kind)
                     if rule is None:
                         chk.ob("D0-flow-undecided", None, construct, None, f"{msg} [{bdesc}, route length {n}]",
                                file=rel, func=fq)
                         continue
+                    if lost and kind != "aliasing":
+                        chk.ob("D0-flow-undecided", None, construct, None, f"{msg} - on a path the analysis could not follow completely "
+                               f"[{bdesc}, route length {n}]", file=rel, func=fq)
+                        continue
+                    if kind == "aliasing":
+                        if (construct, fq) in alias_seen:
+                            continue
+                        alias_seen.add((construct, fq))
                     o_ = chk.ob(rule, None, construct, False, f"{msg} [{bdesc}, route length {n}, path: {path}]",
                                 file=rel, func=fq)
                     o_.line = line
+                und = " (an array or layout argument could not be followed on this path: undecided)"
                 # D2 result location
                 ok = (t.loc == "dest")
                 chk.ob("D2-result-in-dest", fn, f"{cls}.{entry}[{bdesc}; {'route length %d' % n if not same else 'same layout'}; {path}]",
-                       ok, "field ends in `dest`" if ok else
+                       ok if ok or not lost else None, "field ends in `dest`" if ok else
                        f"field ends in `{t.loc}`, the caller swaps its buffers assuming `dest` "
-                       f"(trace: {[x[1] for x in t.trace][-4:]})", file=rel, func=f"{cls}.{entry}")
+                       f"(trace: {[x[1] for x in t.trace][-4:]})" + (und if lost else ""), file=rel, func=f"{cls}.{entry}")
                 # D4 final layout
                 lay = unwrap(t.layout)
                 expect = {repr(Sym("name", "dest_name")), repr(Sym("step", n - 1))}
                 if same:
                     expect.add(repr(Sym("name", "source_name")))
                 okl = repr(lay) in expect
-                chk.ob("D4-final-layout", fn, f"{cls}.{entry}[{bdesc}; route length {n}; {path}]", okl,
+                chk.ob("D4-final-layout", fn, f"{cls}.{entry}[{bdesc}; route length {n}; {path}]", okl if okl or not lost else None,
                        "data is in the destination layout at exit" if okl else
-                       f"data is in layout `{lay}` at exit, expected the destination layout", file=rel,
+                       f"data is in layout `{lay}` at exit, expected the destination layout" + (und if lost else ""), file=rel,
                        func=f"{cls}.{entry}")
                 # D1 source intact
                 if buf_given:
@@ -171,7 +826,10 @@ def call_args(call, fndef):
     if any(isinstance(a, ast.Starred) for a in call.args) or len(call.args) > len(params):
         return None
     m = dict(zip(params, call.args))
+    kwonly = {a.arg for a in fndef.args.kwonlyargs}
     for k in call.keywords:
+        if k.arg is not None and k.arg in kwonly:
+            continue          # keyword-only options are not among the positional parameters the rules speak about
         if k.arg is None or k.arg not in params or k.arg in m:
             return None
         m[k.arg] = k.value
@@ -512,6 +1170,391 @@ def normal_view(fn):
 
 
 # --------------------------------------------------------------------------
+# further behaviour-preserving rewrites of a private copy: calling convention, parallel assignment, delegation to a sibling method,
+# branch combinations that contradict each other
+def class_methods(mod, cls_name):
+    return {m.name: m for m in mod.cls(cls_name).body if isinstance(m, ast.FunctionDef)}
+
+
+def positional_calls(fn, cls_name, meths):
+    """calls of methods of the same class written with keyword arguments are written positionally (same binding)"""
+    n_done = 0
+    for c in [c for c in ast.walk(fn) if isinstance(c, ast.Call) and c.keywords]:
+        g = _own_class_call(c, cls_name, meths)
+        if g is None:
+            continue
+        m = call_args(c, meths[g])
+        if m is None:
+            continue
+        params = [a.arg for a in meths[g].args.args]
+        static = any(isinstance(d, ast.Name) and d.id == "staticmethod" for d in meths[g].decorator_list)
+        if params and params[0] in ("self", "cls") and not static:
+            params = params[1:]
+        supplied = [p_ for p_ in params if p_ in m]
+        if supplied != params[:len(supplied)]:
+            continue
+        c.args = [m[p_] for p_ in supplied]
+        c.keywords = []
+        n_done += 1
+    return n_done
+
+
+def split_parallel_assign(fn):
+    """`a, b = x, y` (plain names on the left, none of them read on the right) is `a = x; b = y`"""
+    n_done = 0
+    for owner, f, blk in list(_blocks_of(fn)):
+        k = 0
+        while k < len(blk):
+            st = blk[k]
+            if isinstance(st, ast.Assign) and len(st.targets) == 1 and isinstance(st.targets[0], ast.Tuple) and isinstance(st.value, ast.Tuple) \
+                    and len(st.targets[0].elts) == len(st.value.elts) and all(isinstance(t, ast.Name) for t in st.targets[0].elts):
+                names = {t.id for t in st.targets[0].elts}
+                if len(names) == len(st.targets[0].elts) and not any(isinstance(x, ast.Name) and x.id in names for v in st.value.elts for x in ast.walk(v)):
+                    new = [ast.copy_location(ast.Assign(targets=[ast.Name(id=t.id, ctx=ast.Store())], value=v), st)
+                           for t, v in zip(st.targets[0].elts, st.value.elts)]
+                    blk[k:k + 1] = new
+                    k += len(new)
+                    n_done += 1
+                    continue
+            k += 1
+    return n_done
+
+
+def conditional_comprehensions(fn):
+    """`X = [V1 if k == P1 else V2 if k == P2 else D(x) for k, x in enumerate(S)]` (V1, V2, P1, P2 independent of k and x) builds
+    the same list as `X = [D(x) for x in S]; X[P2] = V2; X[P1] = V1`: written that way"""
+    n_done = 0
+    for owner, f, blk in list(_blocks_of(fn)):
+        k_ = 0
+        while k_ < len(blk):
+            st = blk[k_]
+            k_ += 1
+            if not (isinstance(st, ast.Assign) and len(st.targets) == 1 and isinstance(st.targets[0], ast.Name)):
+                continue
+            wrap, comp = None, st.value
+            if isinstance(comp, ast.Call) and src(comp.func) in ("tuple", "list") and len(comp.args) == 1 and not comp.keywords \
+                    and isinstance(comp.args[0], (ast.ListComp, ast.GeneratorExp)):
+                wrap, comp = src(comp.func), comp.args[0]
+            if not (isinstance(comp, (ast.ListComp, ast.GeneratorExp)) and (wrap is not None or isinstance(comp, ast.ListComp))
+                    and len(comp.generators) == 1 and not comp.generators[0].ifs and isinstance(comp.elt, ast.IfExp)):
+                continue
+            st_value = comp
+            g = st_value.generators[0]
+            if not (isinstance(g.iter, ast.Call) and src(g.iter.func) == "enumerate" and len(g.iter.args) == 1 and isinstance(g.target, ast.Tuple)
+                    and len(g.target.elts) == 2 and all(isinstance(x, ast.Name) for x in g.target.elts)):
+                continue
+            kv, xv = g.target.elts[0].id, g.target.elts[1].id
+            cases, e, ok = [], st_value.elt, True
+            while isinstance(e, ast.IfExp):
+                t = e.test
+                pos = None
+                if isinstance(t, ast.Compare) and len(t.ops) == 1 and isinstance(t.ops[0], ast.Eq):
+                    l_, r_ = t.left, t.comparators[0]
+                    if isinstance(l_, ast.Name) and l_.id == kv:
+                        pos = r_
+                    elif isinstance(r_, ast.Name) and r_.id == kv:
+                        pos = l_
+                if pos is None or any(isinstance(x, ast.Name) and x.id in (kv, xv) for y in (pos, e.body) for x in ast.walk(y)):
+                    ok = False
+                    break
+                cases.append((pos, e.body))
+                e = e.orelse
+            if not ok or not cases or any(isinstance(x, ast.Name) and x.id == kv for x in ast.walk(e)):
+                continue
+            X = st.targets[0].id
+            base = ast.copy_location(ast.Assign(targets=[ast.Name(id=X, ctx=ast.Store())], value=ast.ListComp(
+                elt=e, generators=[ast.comprehension(target=ast.Name(id=xv, ctx=ast.Store()), iter=g.iter.args[0], ifs=[], is_async=0)])), st)
+            new = [base]
+            for pos, val in reversed(cases):
+                new.append(ast.copy_location(ast.Assign(targets=[ast.Subscript(value=ast.Name(id=X, ctx=ast.Load()), slice=pos, ctx=ast.Store())],
+                                                        value=val), st))
+            if wrap == "tuple":
+                new.append(ast.copy_location(ast.Assign(targets=[ast.Name(id=X, ctx=ast.Store())], value=ast.Call(
+                    func=ast.Name(id="tuple", ctx=ast.Load()), args=[ast.Name(id=X, ctx=ast.Load())], keywords=[])), st))
+            blk[k_ - 1:k_] = new
+            k_ += len(new) - 1
+            n_done += 1
+    if n_done:
+        ast.fix_missing_locations(fn)
+    return n_done
+
+
+class _RenameAll(ast.NodeTransformer):
+    def __init__(self, old, new):
+        self.old, self.new = old, new
+
+    def visit_Name(self, node):
+        if node.id == self.old:
+            return ast.copy_location(ast.Name(id=self.new, ctx=node.ctx), node)
+        return node
+
+
+def unroll_name_loops(fn, max_items=4, max_body=3):
+    """`for v in (a, b, c): <short body>` over a literal tuple of plain names is the body written once per name"""
+    n_done = 0
+    for owner, f, blk in list(_blocks_of(fn)):
+        for k_, st in enumerate(list(blk)):
+            if not (isinstance(st, ast.For) and not st.orelse and isinstance(st.target, ast.Name) and isinstance(st.iter, (ast.Tuple, ast.List))
+                    and 1 <= len(st.iter.elts) <= max_items and all(isinstance(x, ast.Name) for x in st.iter.elts) and len(st.body) <= max_body):
+                continue
+            v = st.target.id
+            if any(isinstance(x, (ast.Break, ast.Continue, ast.Return)) for b_ in st.body for x in ast.walk(b_)):
+                continue
+            if any(isinstance(x, ast.Name) and x.id == v and isinstance(x.ctx, ast.Store) for b_ in st.body for x in ast.walk(b_)):
+                continue
+            idx = next(i for i, s_ in enumerate(blk) if s_ is st)
+            if any(_occurs(s_, v) for s_ in blk[idx + 1:]):
+                continue
+            new = []
+            for nm in st.iter.elts:
+                for b_ in st.body:
+                    new.append(_RenameAll(v, nm.id).visit(clone(b_)))
+            blk[idx:idx + 1] = new
+            n_done += 1
+    if n_done:
+        ast.fix_missing_locations(fn)
+    return n_done
+
+
+class _Subst(ast.NodeTransformer):
+    def __init__(self, mapping):
+        self.m = mapping
+
+    def visit_Name(self, node):
+        if node.id in self.m and isinstance(node.ctx, ast.Load):
+            new = clone(self.m[node.id])
+            for x in ast.walk(new):
+                ast.copy_location(x, node)
+            return new
+        return node
+
+
+def _inlinable_body(g, args_of):
+    """the statements of method g with its parameters replaced by the argument expressions, or None when that is not a faithful
+    rewrite (a parameter is rebound, a value is returned, a `return` is not in tail position, nested scopes)"""
+    gv = clone(g)
+    early_return_to_else(gv)
+    body = [s_ for s_ in gv.body if not (isinstance(s_, ast.Expr) and isinstance(s_.value, ast.Constant) and isinstance(s_.value.value, str))]
+
+    def strip_tail(blk):
+        if blk and isinstance(blk[-1], ast.Return) and blk[-1].value is None:
+            blk.pop()
+            if not blk:
+                blk.append(ast.Pass())
+        if blk and isinstance(blk[-1], ast.If):
+            strip_tail(blk[-1].body)
+            if blk[-1].orelse:
+                strip_tail(blk[-1].orelse)
+    strip_tail(body)
+    mod_ = ast.Module(body=body, type_ignores=[])
+    if any(isinstance(x, (ast.Return, ast.FunctionDef, ast.Lambda, ast.ClassDef, ast.Global, ast.Nonlocal, ast.Yield, ast.YieldFrom))
+           for x in ast.walk(mod_)):
+        return None
+    for p_, a in args_of.items():
+        simple = isinstance(a, (ast.Name, ast.Constant)) or (isinstance(a, (ast.Attribute, ast.Subscript)) and
+                                                            all(isinstance(x, (ast.Name, ast.Attribute, ast.Subscript, ast.Constant, ast.Load))
+                                                                for x in ast.walk(a)))
+        if not simple:
+            return None
+        if any(isinstance(x, ast.Name) and x.id == p_ and isinstance(x.ctx, (ast.Store, ast.Del)) for x in ast.walk(mod_)):
+            if not (isinstance(a, ast.Name) and a.id == p_):
+                return None
+    mapping = {p_: a for p_, a in args_of.items() if not (isinstance(a, ast.Name) and a.id == p_)}
+    if mapping:
+        mod_ = _Subst(mapping).visit(mod_)
+    return mod_.body
+
+
+def inline_delegations(fn, cls_name, meths, want, depth=2):
+    """a statement `self.g(...)` that hands the work to a sibling method whose body has what the rule looks for (`want(g)`) is
+    replaced by that body with the parameters written as the arguments (the wrapper and the sibling then read as one routine)"""
+    n_done = 0
+    locals_f = {x.id for x in ast.walk(fn) if isinstance(x, ast.Name) and isinstance(x.ctx, ast.Store)} | {a.arg for a in fn.args.args}
+    for _ in range(depth):
+        changed = False
+        for owner, f, blk in list(_blocks_of(fn)):
+            for k, st in enumerate(blk):
+                if not (isinstance(st, ast.Expr) and isinstance(st.value, ast.Call)):
+                    continue
+                g = _own_class_call(st.value, cls_name, meths)
+                if g is None or g == fn.name or not want(meths[g]):
+                    continue
+                am = call_args(st.value, meths[g])
+                params = [a.arg for a in meths[g].args.args if a.arg not in ("self", "cls")]
+                if am is None or any(p_ not in am for p_ in params):
+                    continue
+                # locals of g must not capture names of f that are live in f (parameters that keep their name are fine)
+                g_locals = {x.id for x in ast.walk(meths[g]) if isinstance(x, ast.Name) and isinstance(x.ctx, ast.Store)}
+                f_used_after = {x.id for s_ in blk[k + 1:] for x in ast.walk(s_) if isinstance(x, ast.Name) and isinstance(x.ctx, ast.Load)}
+                if g_locals & f_used_after & (locals_f - set(params)):
+                    continue
+                body = _inlinable_body(meths[g], am)
+                if body is None:
+                    continue
+                for s_ in body:
+                    for x in ast.walk(s_):
+                        if not hasattr(x, "lineno") and isinstance(x, (ast.stmt, ast.expr)):
+                            ast.copy_location(x, st)
+                blk[k:k + 1] = body
+                n_done += 1
+                changed = True
+                break
+            if changed:
+                break
+        if not changed:
+            break
+    if n_done:
+        ast.fix_missing_locations(fn)
+        link(fn)
+    return n_done
+
+
+def _cmp_fact(fn, test, at):
+    """(key, signs) of a comparison `A op B` between two expressions built from parameters only (locals written out at `at`);
+    `not X` and a local bound to such a comparison are followed.  None when the test is something else."""
+    neg = False
+    t = test
+    for _ in range(4):
+        if isinstance(t, ast.UnaryOp) and isinstance(t.op, ast.Not):
+            neg, t = not neg, t.operand
+        elif isinstance(t, ast.Name):
+            d = reaching_def(fn, t.id, at)
+            if d is None:
+                return None
+            t, at = d.value, d
+        else:
+            break
+    if not (isinstance(t, ast.Compare) and len(t.ops) == 1 and type(t.ops[0]) in _CMP_SIGNS):
+        return None
+    params = {a.arg for a in fn.args.args}
+    sides = []
+    for x in (t.left, t.comparators[0]):
+        xx = resolve_at(fn, x, at, keep=params)
+        if any(isinstance(n, ast.Name) and n.id not in params and n.id not in ("len", "np") for n in ast.walk(xx)):
+            return None
+        if any(isinstance(n, ast.Call) for n in ast.walk(xx)):
+            return None
+        sides.append(src(xx))
+    a, b = sides
+    if a == b:
+        return None
+    s = _CMP_SIGNS[type(t.ops[0])]
+    if a > b:
+        a, b = b, a
+        s = frozenset({"<": ">", ">": "<", "=": "="}[x] for x in s)
+    if neg:
+        s = frozenset("<=>") - s
+    return (a, b), s
+
+
+def prune_infeasible(fn):
+    """arms of an `if` that contradict what the enclosing tests have established about the same two quantities (sign of A - B,
+    A and B written with parameters only) are never executed: their statements are replaced by `pass` (the tests stay)"""
+    n_done = [0]
+
+    def walk(blk, facts):
+        for st in list(blk):
+            if isinstance(st, ast.If):
+                kf = _cmp_fact(fn, st.test, st)
+                fa, fb = dict(facts), dict(facts)
+                dead_a = dead_b = False
+                if kf is not None:
+                    key, s = kf
+                    have = facts.get(key, frozenset("<=>"))
+                    fa[key], fb[key] = have & s, have - s
+                    dead_a, dead_b = not fa[key], not fb[key]
+                if dead_a and not all(isinstance(x, ast.Pass) for x in st.body):
+                    st.body = [ast.copy_location(ast.Pass(), st)]
+                    n_done[0] += 1
+                if dead_b and st.orelse and not all(isinstance(x, ast.Pass) for x in st.orelse):
+                    st.orelse = [ast.copy_location(ast.Pass(), st)]
+                    n_done[0] += 1
+                walk(st.body, fa)
+                walk(st.orelse, fb)
+                # after `if c: ...; return`, the rest of the block runs under `not c`
+                if st.body and isinstance(st.body[-1], (ast.Return, ast.Raise)) and kf is not None:
+                    facts = fb
+            elif isinstance(st, (ast.For, ast.While, ast.With, ast.Try)):
+                for f in ("body", "orelse", "finalbody"):
+                    walk(getattr(st, f, []) or [], facts)
+    walk(fn.body, {})
+    if n_done[0]:
+        link(fn)
+    return n_done[0]
+
+
+def inline_param_items(fn):
+    """`a, b, c = P` and `a = P[0]` for a parameter P that the function never rebinds or stores into (a, b, c bound once): the names are
+    written `P[0]`, `P[1]`, `P[2]` wherever they are read (the rules speak about the items of `axis`)"""
+    params = {x.arg for x in fn.args.args}
+    stored = {}
+    for n in ast.walk(fn):
+        if isinstance(n, ast.Name) and isinstance(n.ctx, (ast.Store, ast.Del)):
+            stored[n.id] = stored.get(n.id, 0) + 1
+        elif isinstance(n, ast.Subscript) and isinstance(n.ctx, (ast.Store, ast.Del)) and isinstance(n.value, ast.Name):
+            stored[n.value.id] = stored.get(n.value.id, 0) + 1
+    mapping, drop = {}, []
+    for owner, f, blk in list(_blocks_of(fn)):
+        if owner is not fn:
+            continue
+        for st in blk:
+            if not (isinstance(st, ast.Assign) and len(st.targets) == 1):
+                continue
+            t, v = st.targets[0], st.value
+            if isinstance(t, ast.Tuple) and isinstance(v, ast.Name) and v.id in params and not stored.get(v.id) \
+                    and all(isinstance(x, ast.Name) and stored.get(x.id) == 1 and x.id not in params for x in t.elts):
+                for i, x in enumerate(t.elts):
+                    mapping[x.id] = ast.Subscript(value=ast.Name(id=v.id, ctx=ast.Load()), slice=ast.Constant(value=i), ctx=ast.Load())
+                drop.append(st)
+            elif isinstance(t, ast.Name) and stored.get(t.id) == 1 and t.id not in params and isinstance(v, ast.Subscript) \
+                    and isinstance(v.value, ast.Name) and v.value.id in params and not stored.get(v.value.id) \
+                    and isinstance(v.slice, ast.Constant) and isinstance(v.slice.value, int):
+                mapping[t.id] = v
+                drop.append(st)
+    if not mapping:
+        return 0
+    for owner, f, blk in list(_blocks_of(fn)):
+        blk[:] = [_Subst(mapping).visit(s_) for s_ in blk if not any(s_ is d for d in drop)] or [ast.Pass()]
+    ast.fix_missing_locations(fn)
+    return len(mapping)
+
+
+def unit_view(mod, cls_name, q, want=None, normal=False):
+    """private copy of method q of the class with: own-class calls written positionally, parallel assignments of plain names split,
+    (when `want` is given and q itself lacks it) sibling methods it delegates to written in place, contradictory arms emptied;
+    `normal=True` adds the rewrites of normal_view"""
+    meths = class_methods(mod, cls_name)
+    fn = mod.func(q)
+    v = clone(fn)
+    v._parent = getattr(fn, "_parent", None)
+    positional_calls(v, cls_name, meths)
+    if want is not None and not want(v):
+        inline_delegations(v, cls_name, meths, want)
+        positional_calls(v, cls_name, meths)
+    split_parallel_assign(v)
+    inline_param_items(v)
+    conditional_comprehensions(v)
+    unroll_name_loops(v)
+    link(v)
+    if normal:
+        fold_none_tests(v)
+        early_return_to_else(v)
+        duplicate_tail(v)
+        split_self_updates(v)
+    prune_infeasible(v)
+    ast.fix_missing_locations(v)
+    link(v)
+    v._parent = getattr(fn, "_parent", None)
+    return v
+
+
+def has_call(*names):
+    def want(fn):
+        return any(isinstance(c, ast.Call) and isinstance(c.func, ast.Attribute) and c.func.attr in names for c in ast.walk(fn))
+    return want
+
+
+# --------------------------------------------------------------------------
 def _block_size_var(flow, prefer="size"):
     """the `x = np.prod(<shape list>)` that is the size of the block the function cuts from its flat buffer: the name used as the
     extent of a cut (`buf[a:a+x]`, `np.split(buf, [x])`), else the reference name"""
@@ -538,9 +1581,347 @@ def _canon(sl, mapping=None):
     return canon_product(sl, mapping or {})
 
 
+def loop_index(loop):
+    """(name of the iteration counter or None, {element name: sequence expression}) of a `for` header:
+    range(n) / enumerate(X) / zip(A, B) / enumerate(zip(A, B)) / X"""
+    it, tg = loop.iter, loop.target
+    idx, elems = None, {}
+
+    def seqs(e, t):
+        if isinstance(e, ast.Call) and src(e.func) == "zip" and isinstance(t, (ast.Tuple, ast.List)) and len(t.elts) == len(e.args):
+            for x, y in zip(t.elts, e.args):
+                if isinstance(x, ast.Name):
+                    elems[x.id] = y
+        elif isinstance(t, ast.Name):
+            elems[t.id] = e
+    if isinstance(it, ast.Call) and src(it.func) == "range" and isinstance(tg, ast.Name) and len(it.args) == 1:
+        idx = tg.id
+    elif isinstance(it, ast.Call) and src(it.func) == "enumerate" and 1 <= len(it.args) <= 2 and isinstance(tg, (ast.Tuple, ast.List)) and len(tg.elts) == 2 \
+            and isinstance(tg.elts[0], ast.Name):
+        start = it.args[1] if len(it.args) == 2 else next((k.value for k in it.keywords if k.arg == "start"), None)
+        if start is None or (isinstance(start, ast.Constant) and start.value == 0):
+            idx = tg.elts[0].id           # counts the iterations from 0
+        seqs(it.args[0], tg.elts[1])
+    else:
+        seqs(it, tg)
+    return idx, elems
+
+
+def _shifted_counter(loop):
+    """(name, start) of an `enumerate(..., start=c)` counter with a non-zero constant start, else None"""
+    it, tg = loop.iter, loop.target
+    if isinstance(it, ast.Call) and src(it.func) == "enumerate" and isinstance(tg, (ast.Tuple, ast.List)) and tg.elts and isinstance(tg.elts[0], ast.Name):
+        start = it.args[1] if len(it.args) == 2 else next((k.value for k in it.keywords if k.arg == "start"), None)
+        if isinstance(start, ast.Constant) and isinstance(start.value, int) and start.value != 0:
+            return tg.elts[0].id, start.value
+    return None
+
+
+def loops_around(fn, node):
+    """the loops a node is inside, innermost first"""
+    out, p = [], parent(node)
+    while p is not None and p is not fn:
+        if isinstance(p, (ast.For, ast.While)):
+            out.append(p)
+        p = parent(p)
+    return out
+
+
+def arith(e, env):
+    """sympy form of an integer expression: + - * and constants are arithmetic, every other sub-expression is an atom named by its
+    source text with the single-assignment locals of `env` written out"""
+    import sympy
+    if isinstance(e, ast.Constant) and isinstance(e.value, int) and not isinstance(e.value, bool):
+        return sympy.Integer(e.value)
+    if isinstance(e, ast.BinOp) and isinstance(e.op, (ast.Add, ast.Sub, ast.Mult)):
+        a, b = arith(e.left, env), arith(e.right, env)
+        return sympy.expand(a + b if isinstance(e.op, ast.Add) else a - b if isinstance(e.op, ast.Sub) else a * b)
+    if isinstance(e, ast.UnaryOp) and isinstance(e.op, ast.USub):
+        return -arith(e.operand, env)
+    if isinstance(e, ast.Name) and e.id in env:
+        return arith(env[e.id], {k: v for k, v in env.items() if k != e.id})
+    return sympy.Symbol(xsrc(e, env).replace(" ", ""), integer=True)
+
+
+def _flat_cut(fn, e, at, root, depth=8):
+    """follow a view back to the cut of the flat buffer `root` it was taken from: -> (lo, hi, cut node) with lo/hi expressions (None =
+    open end), or None.  reshape / basic subscripts / np.split(x, [n])[0] / plain names (their reaching definition) are followed."""
+    for _ in range(depth):
+        if isinstance(e, ast.Name):
+            if e.id == root:
+                return None, None, e
+            d = reaching_def(fn, e.id, at)
+            if d is None:
+                return None
+            e, at = d.value, d
+            continue
+        if isinstance(e, ast.Call) and isinstance(e.func, ast.Attribute) and e.func.attr in ("reshape", "view", "ravel") \
+                and not (isinstance(e.func.value, ast.Name) and e.func.value.id in ("np", "numpy")):
+            e = e.func.value
+            continue
+        if isinstance(e, ast.Subscript):
+            v, sl = e.value, e.slice
+            if isinstance(v, ast.Name) and v.id == root and isinstance(sl, ast.Slice) and sl.step is None:
+                return sl.lower, sl.upper, e
+            if isinstance(v, ast.Call) and src(v.func) in ("np.split", "numpy.split") and len(v.args) == 2 and isinstance(v.args[0], ast.Name) \
+                    and v.args[0].id == root and isinstance(v.args[1], ast.List) and len(v.args[1].elts) == 1 and src(sl) == "0":
+                return None, v.args[1].elts[0], e
+            e = v
+            continue
+        return None
+    return None
+
+
+def _size_preserving_origin(fn, e, at, depth=8):
+    """the parameter an array expression was obtained from by operations that keep the number of elements (reshape, transpose,
+    moveaxis, swapaxes, copies), or None"""
+    for _ in range(depth):
+        if isinstance(e, ast.Name):
+            if e.id in {a.arg for a in fn.args.args}:
+                return e.id
+            d = reaching_def(fn, e.id, at)
+            if d is None:
+                return None
+            e, at = d.value, d
+            continue
+        if isinstance(e, ast.Call) and isinstance(e.func, ast.Attribute):
+            f = e.func
+            if isinstance(f.value, ast.Name) and f.value.id in ("np", "numpy"):
+                if f.attr in ("transpose", "moveaxis", "swapaxes", "reshape", "ascontiguousarray", "asarray", "array", "copy", "ravel") and e.args:
+                    e = e.args[0]
+                    continue
+                return None
+            if f.attr in ("transpose", "reshape", "swapaxes", "copy", "ravel", "flatten", "view"):
+                e = f.value
+                continue
+        return None
+    return None
+
+
+def packer_addressing(chk, rel, pack, fp, envp, vp, QP):
+    """G1-packer-advance: the exchange cuts the send buffer into equal chunks of the block size, chunk k going to rank k; so every
+    store of the packer into the send buffer must address block k at k x (block size) - through a counter of the loop over the
+    destination ranks, or through a running offset that advances by the block size on EVERY iteration"""
+    import sympy
+    from ..core import increment_of
+    rule, what = "G1-packer-advance", "start += size"
+    good = "the packer writes block k of the send buffer at k x block size (one block per destination rank, no iteration leaves the slot out)"
+    root = "tobuffer"
+    if root not in {a.arg for a in pack.args.args} or vp is None:
+        chk.ob(rule, pack, what, None, "the packer's send buffer parameter / block size was not identified", file=rel, func=QP)
+        return
+    env_keep = {k: v for k, v in envp.items() if k != vp}
+    size = sympy.Symbol(vp, integer=True)
+    sends = []
+    for st in ast.walk(pack):
+        if isinstance(st, ast.Assign) and len(st.targets) == 1 and isinstance(st.targets[0], ast.Subscript):
+            cut = _flat_cut(pack, st.targets[0].value, st, root)
+            if cut is not None:
+                sends.append((st, cut))
+        elif isinstance(st, ast.Expr) and isinstance(st.value, ast.Call) and src(st.value.func) in ("np.copyto", "numpy.copyto") and st.value.args:
+            cut = _flat_cut(pack, st.value.args[0], st, root)
+            if cut is not None:
+                sends.append((st, cut))
+    if not sends:
+        chk.ob(rule, pack, what, None, "no store into (a view of) the send buffer was found in the packer", file=rel, func=QP)
+        return
+    verdicts = []          # (ok, message, node)
+    for st, (lo, hi, cutnode) in sends:
+        loops = loops_around(pack, st)
+        if not loops:
+            verdicts.append(_fast_path_send(pack, st, lo, hi, env_keep, vp, fp))
+            continue
+        L = loops[0]
+        idx, _ = loop_index(L)
+        others = [s2 for s2, _ in sends if not any(L is l2 for l2 in loops_around(pack, s2)) and not _exclusive(s2, L)]
+        rank_loop_coverage(chk, rel, pack, QP, L, env_keep, "packing loop over the destination ranks", peeled=others[0] if others else None)
+        if any(isinstance(x, (ast.Break, ast.Return)) for b_ in L.body for x in ast.walk(b_)):
+            verdicts.append((None, "the loop over the destination ranks can be left early (break/return)", L))
+            continue
+        if lo is None or hi is None:
+            verdicts.append((None, f"`{src(cutnode)}` has an open end: the block extent is not explicit", st))
+            continue
+        lo_s, hi_s = arith(lo, env_keep), arith(hi, env_keep)
+        stride = sympy.expand(hi_s - lo_s)
+        # (a) offset written with the iteration counter
+        cnt = _shifted_counter(L)
+        if idx is None and cnt is not None and sympy.Symbol(cnt[0], integer=True) in lo_s.free_symbols:
+            k = sympy.Symbol(cnt[0], integer=True)
+            if sympy.expand(lo_s - k * stride) == 0:
+                verdicts.append((False, f"block k of the send buffer is written at `{src(lo)}`, but `{cnt[0]}` counts the destination ranks from "
+                                 f"{cnt[1]}: the block of rank k lands in slot k+{cnt[1]}, while the exchange delivers slot k to rank k - every rank "
+                                 "receives the block of its predecessor, slot 0 is never filled and the last block lies beyond the exchanged chunk", st))
+            else:
+                verdicts.append((None, f"offset `{src(lo)}` written with a counter that starts at {cnt[1]}", st))
+            continue
+        if idx is not None and sympy.Symbol(idx, integer=True) in lo_s.free_symbols:
+            k = sympy.Symbol(idx, integer=True)
+            if sympy.expand(lo_s - k * stride) == 0 and sympy.expand(stride - size) == 0:
+                verdicts.append((True, good, st))
+            elif sympy.expand(lo_s - k * stride) == 0:
+                verdicts.append(_stride_verdict(stride, vp, fp, st, f"block k is written at k x `{stride}`"))
+            else:
+                verdicts.append((None, f"offset `{src(lo)}` of the block is not (iteration counter) x (block extent `{stride}`)", st))
+            continue
+        # (b) running offset
+        if not isinstance(lo, ast.Name):
+            verdicts.append((None, f"offset `{src(lo)}` of the block in the send buffer not recognised", st))
+            continue
+        x = lo.id
+        stores = [n for b_ in L.body for n in ast.walk(b_) if isinstance(n, (ast.Assign, ast.AugAssign)) and _stores(n, x)]
+        incs = [(n, increment_of(n)) for n in stores]
+        init = reaching_def(pack, x, L)
+        if len(stores) != 1 or incs[0][1] is None or incs[0][1][0] != x:
+            verdicts.append((None, f"the running offset `{x}` is not advanced by exactly one `{x} += <block size>` in the loop", st))
+            continue
+        inc_st, (_, inc) = incs[0]
+        if init is None or not (isinstance(init.value, ast.Constant) and init.value.value == 0):
+            verdicts.append((None, f"the running offset `{x}` does not start from the constant 0 before the loop", st))
+            continue
+        if not any(inc_st is b_ for b_ in L.body):
+            g = parent(inc_st)
+            verdicts.append((False, f"`{src(inc_st)}` is executed only under `{src(g.test)[:60] if isinstance(g, ast.If) else src(g)[:60]}`: on the "
+                             f"iterations where it is not, the next block is written over the slot of this destination rank, but the exchange "
+                             "delivers slot k of the send buffer to rank k - every later rank receives the block of another rank", inc_st))
+            continue
+        pos = [i for i, b_ in enumerate(L.body) if b_ is inc_st][0]
+        skips = [c for b_ in L.body[:pos] for c in ast.walk(b_) if isinstance(c, ast.Continue)]
+        if skips:
+            c = skips[0]
+            g = parent(c)
+            verdicts.append((False, f"`continue` (line {c.lineno}, under `{src(g.test)[:50] if isinstance(g, ast.If) else '...'}`) leaves the iteration "
+                             f"before `{src(inc_st)}`: the slot of that destination rank is not stepped over, every later block is packed one slot "
+                             "too early, but the exchange delivers slot k of the send buffer to rank k - the ranks after it receive the block "
+                             "meant for their successor and the last ones stale memory", c))
+            continue
+        inc_s = arith(inc, env_keep)
+        if sympy.expand(inc_s - stride) != 0:
+            verdicts.append(_stride_verdict(inc_s, vp, fp, inc_st, f"the offset advances by `{src(inc)}` while the block written is `{stride}` long"))
+            continue
+        if not any(_occurs(b_, x) for b_ in L.body[:pos]):
+            verdicts.append((None, f"`{src(inc_st)}` precedes the use of `{x}` in the iteration", inc_st))
+            continue
+        if sympy.expand(stride - size) == 0:
+            verdicts.append((True, good, st))
+        else:
+            verdicts.append(_stride_verdict(stride, vp, fp, st, f"the blocks are `{stride}` elements apart"))
+    bad = [v for v in verdicts if v[0] is False]
+    und = [v for v in verdicts if v[0] is None]
+    if bad:
+        chk.ob(rule, bad[0][2], what, False, "; ".join(dict.fromkeys(v[1] for v in bad)), file=rel, func=QP)
+    elif und:
+        chk.ob(rule, und[0][2], what, None, "cannot decide: " + "; ".join(dict.fromkeys(v[1] for v in und)), file=rel, func=QP)
+    else:
+        chk.__dict__["_c01_packer_uniform"] = True
+        chk.ob(rule, verdicts[0][2], what, True, good + f" ({len(verdicts)} store(s) into the send buffer)", file=rel, func=QP)
+
+
+def rank_loop_coverage(chk, rel, fn, q, loop, env, what, peeled=None):
+    """G1-rank-loop-coverage: the loop of a kernel that handles one block per rank visits every rank of the communicator exactly once:
+    it runs over the whole per-rank tables of a layout, or over range(<number of ranks>)"""
+    import re
+    rule = "G1-rank-loop-coverage"
+    it = loop.iter
+    good = f"the {what} visits every rank once"
+    hdr = f"for {src(loop.target)} in {src(it)[:70]}"
+    ok, bad = None, None
+    seqs = []
+    e = it
+    if isinstance(e, ast.Call) and src(e.func) == "enumerate" and e.args:
+        e = e.args[0]
+    if isinstance(e, ast.Call) and src(e.func) == "zip":
+        seqs = list(e.args)
+    elif not (isinstance(e, ast.Call) and src(e.func) == "range"):
+        seqs = [e]
+    count = r"(?:mpi_size|nSplits|\w*comm\w*\.Get_size\(\)|self\._subcomms\[axis\[0\]\]\.Get_size\(\)|layout_(?:source|dest)\.nprocs\[axis\[0\]\]|" \
+            r"len\(layout_(?:source|dest)\.mpi_(?:lengths|starts)\(axis\[0\]\)\))"
+    if seqs:
+        ts = [xsrc(x, env).replace(" ", "") for x in seqs]
+        whole = [bool(re.fullmatch(r"layout_(source|dest)\.mpi_(lengths|starts)\(axis\[0\]\)", t)) for t in ts]
+        cut = [t for t in ts if re.fullmatch(r"layout_(source|dest)\.mpi_(lengths|starts)\(axis\[0\]\)\[[^\]]*:[^\]]*\]", t)]
+        if all(whole):
+            ok = True
+        elif cut:
+            bad = (f"`{hdr}` runs over a part (`{cut[0]}`) of the per-rank table: the ranks that are cut off get no block packed / have their "
+                   "received block never copied, their part of the field is stale memory")
+    else:
+        args = [xsrc(a, env).replace(" ", "") for a in e.args]
+        if len(args) == 1 and re.fullmatch(count, args[0]):
+            ok = True
+        elif len(args) == 1 and re.fullmatch(count + r"-\d+", args[0]):
+            bad = f"`{hdr}` stops before the last rank: the block of the last rank(s) is never handled, that part of the field keeps stale memory"
+        elif len(args) == 2 and re.fullmatch(r"[1-9]\d*", args[0]) and re.fullmatch(count, args[1]):
+            bad = f"`{hdr}` starts after rank 0: the block of the first rank(s) is never handled, that part of the field keeps stale memory"
+    if bad and peeled is not None:
+        # the ranks the loop leaves out may be handled by the statement outside it
+        bad = None
+    o = chk.pat(rule, loop, f"{q.split('.')[-1]}: {hdr}", ok, good, bad, file=rel, func=q)
+    if not ok and not bad and peeled is not None:
+        o.msg = (f"`{hdr}` does not run over all ranks, and `{src(peeled)[:60]}` writes the same array outside the loop: whether together they "
+                 "cover every rank was not established")
+
+
+def _exclusive(a, b):
+    """are the two nodes in different arms of one `if`?"""
+    def arms(n):
+        out, ch, p = [], n, parent(n)
+        while p is not None:
+            if isinstance(p, ast.If):
+                out.append((id(p), 0 if any(x is ch for x in p.body) else 1))
+            ch, p = p, parent(p)
+        return out
+    A, B = arms(a), arms(b)
+    return any(x[0] == y[0] and x[1] != y[1] for x in A for y in B)
+
+
+def _stride_verdict(stride, vp, fp, node, lead):
+    t = str(stride)
+    if t in fp.prods or ".size" in t or "max_block_size" in t:
+        return (False, f"{lead}, not the size `{vp}` of the padded block: the blocks overlap or leave gaps in the send buffer, which the "
+                "Alltoall cuts into equal chunks of the block size", node)
+    return (None, f"{lead}; its relation to the block size `{vp}` was not established", node)
+
+
+def _fast_path_send(pack, st, lo, hi, env_keep, vp, fp):
+    """a store into the send buffer outside the loop over the destination ranks: all blocks at once.  The elements written are a
+    contiguous prefix; with n blocks its length must be n x (padded block size)"""
+    from ..core import guards_of
+    if lo is not None and not (isinstance(lo, ast.Constant) and lo.value == 0):
+        return (None, f"`{src(st)[:60]}` writes the send buffer from offset `{src(lo)}` outside the loop over the destination ranks", st)
+    origin = None
+    if hi is not None:
+        h = hi
+        if isinstance(h, ast.Name):
+            d = reaching_def(pack, h.id, st)
+            h = d.value if d is not None else h
+        if isinstance(h, ast.Attribute) and h.attr == "size":
+            origin = _size_preserving_origin(pack, h.value, st)
+        elif isinstance(h, ast.Call) and src(h.func) in ("np.prod", "numpy.prod") and len(h.args) == 1 and isinstance(h.args[0], ast.Attribute) \
+                and h.args[0].attr == "shape":
+            origin = _size_preserving_origin(pack, h.args[0].value, st)
+    if origin != "source":
+        return (None, f"`{src(st)[:70]}` fills the send buffer outside the loop over the destination ranks; the spacing of the blocks it writes "
+                "could not be derived", st)
+    sl = fp.prods[vp][0]
+    padded = [k for k in sl.over]
+    gtxt = " and ".join(src(t) for t, pol, kind in guards_of(st) if kind == "if")
+    mentions = [k for k in padded if any(f"max_block_shape[{k}]" in src(t).replace(" ", "") or f"mpi_lengths({k})" in src(t).replace(" ", "")
+                                         for t, pol, kind in guards_of(st))]
+    unguarded = [k for k in padded if k not in mentions and f".shape[{k}]" not in gtxt.replace(" ", "")]
+    if unguarded:
+        return (False, f"`{src(st)[:70]}` (taken when `{gtxt[:80]}`) writes all blocks at once as one contiguous prefix of `{src(hi)}` = "
+                f"prod(layout_source.shape) elements, i.e. blocks of the LOCAL shape; the exchange and the unpacker cut the send buffer every "
+                f"`{vp}` = prod({sl.base} with {', '.join('[' + k + '] = ' + v for k, v in sl.over.items())}) elements. The test does not "
+                f"establish that the extent along {unguarded[0]} equals its padded length: on a rank whose block is shorter, blocks 1.. are "
+                "misaligned and the destination receives elements of the wrong block", st)
+    return (None, f"`{src(st)[:70]}` writes all blocks at once under `{gtxt[:80]}`: whether the block spacing equals `{vp}` there was not established", st)
+
+
 def geometry_check(chk, mod):
     import sympy
     from ..core import increment_of, same_expr
+    if not isinstance(mod, ModView):
+        mod = handler_view(chk, mod)
     rel = mod.rel
     QP, QU, QI = "LayoutHandler._extract_from_source", "LayoutHandler._rearrange_from_buffer", "LayoutHandler.__init__"
     pack, unpack, init = mod.func(QP), mod.func(QU), mod.func(QI)
@@ -548,7 +1929,7 @@ def geometry_check(chk, mod):
         chk.functions.add(f"{rel}:{q}")
     fp, fu, fi = ShapeFlow(pack), ShapeFlow(unpack), ShapeFlow(init)
     envp, envu = inline_locals(pack), inline_locals(unpack)
-    envi = {k: v for k, v in inline_locals(init).items() if k != "axis"}      # `axis[k]` keeps its name: the rules speak about it
+    envi = _init_env(init)      # `axis[k]` and the two layout variables keep their names: the rules speak about them
     # packer: the block size used to advance through the send buffer; unpacker: the size of the exchanged chunk
     vp, vu = _block_size_var(fp), _block_size_var(fu)
     if vp is None or vu is None:
@@ -591,36 +1972,8 @@ def geometry_check(chk, mod):
         chk.pat("G1-geometry-pack-vs-unpack", unpack, "size = np.prod(source_shape)", ok,
                 "Alltoall transfer size = (packed block size) x (communicator size), same base layout and overridden axes",
                 bad, file=rel, func=QU, facts={"packer": str(P), "unpacker": str(Uu)})
-    # the packer advances by exactly one block per destination rank: `start += size` per iteration, or start = k*size
-    adv = [increment_of(n) for n in ast.walk(pack) if isinstance(n, (ast.Assign, ast.AugAssign)) and increment_of(n)]
-    views = [n for n in ast.walk(pack) if isinstance(n, ast.Subscript) and isinstance(n.slice, ast.Slice) and isinstance(n.value, ast.Name)
-             and n.value.id == "tobuffer" and n.slice.lower is not None]
-    startv = views[0].slice.lower.id if views and isinstance(views[0].slice.lower, ast.Name) else "start"
-    adv = [a for a in adv if a[0] == startv]
-    okadv, badadv = None, None
-    if vp is not None and len(adv) == 1:
-        inc = adv[0][1]
-        incx = xsrc(inc, {k: v for k, v in envp.items() if k != vp})
-        if incx == vp:
-            okadv = True
-        elif (isinstance(inc, ast.Name) and inc.id in fp.prods) or ".size" in incx or "max_block_size" in incx:
-            badadv = (f"the packer advances by `{src(inc)}` per destination rank, not by the size `{vp}` of the block it has just written: "
-                      "the blocks overlap or leave gaps in the send buffer, which the Alltoall cuts into equal chunks of the block size")
-    elif vp is not None and not adv:
-        sets = [n for n in ast.walk(pack) if isinstance(n, ast.Assign) and src(n.targets[0]) == startv and isinstance(n.value, ast.BinOp)
-                and isinstance(n.value.op, ast.Mult)]
-        lp_idx = set()
-        for lp_ in [n for n in ast.walk(pack) if isinstance(n, ast.For)]:
-            if isinstance(lp_.iter, ast.Call) and src(lp_.iter.func) == "range" and isinstance(lp_.target, ast.Name):
-                lp_idx.add(lp_.target.id)
-            if isinstance(lp_.iter, ast.Call) and src(lp_.iter.func) == "enumerate" and isinstance(lp_.target, ast.Tuple) \
-                    and isinstance(lp_.target.elts[0], ast.Name):
-                lp_idx.add(lp_.target.elts[0].id)
-        if len(sets) == 1 and any(same_expr(sets[0].value, f"{k} * {vp}") for k in lp_idx):
-            okadv = True
-    chk.pat("G1-packer-advance", pack, "start += size", okadv,
-            "the packer advances by one block per destination rank (block k of the send buffer starts at k x block size)", badadv,
-            file=rel, func=QP)
+    # the packer writes block k of the send buffer at k x (block size): every store into the send buffer is read
+    packer_addressing(chk, rel, pack, fp, envp, vp, QP)
 
     # which per-rank tables the packer and the unpacker read
     def tables(fn_):
@@ -633,13 +1986,17 @@ def geometry_check(chk, mod):
              "unpacker places each received block by the source layout's lengths/starts along axis[0]", envu)):
         tb = tables(fn_)
         wrong, unknown = [], []
+        right_kinds = {n.func.attr for n in tb if xsrc(n.func.value, env_) == lay_ and len(n.args) == 1 and xsrc(n.args[0], env_) == "axis[0]"}
         for n in tb:
             who, arg = xsrc(n.func.value, env_), (xsrc(n.args[0], env_) if len(n.args) == 1 else None)
             if who == lay_ and arg == "axis[0]":
                 continue
-            if who == other_:
-                wrong.append(f"`{src(n)}` reads the table of {other_}: the blocks are cut by {lay_}'s partition")
-            elif who == lay_ and arg in ("axis[1]", "axis[2]"):
+            # a read of another table is the defect only when it REPLACES the right one (the right table of that kind is not read at all)
+            replaces = n.func.attr not in right_kinds
+            if who == other_ and replaces:
+                wrong.append(f"`{src(n)}` reads the table of {other_} (and {lay_}'s {n.func.attr} along axis[0] is not read at all): the blocks "
+                             f"are cut by {lay_}'s partition")
+            elif who == lay_ and arg in ("axis[1]", "axis[2]") and replaces:
                 wrong.append(f"`{src(n)}` reads the table of layout axis {arg}: the axis that is distributed is the process axis axis[0]")
             else:
                 unknown.append(src(n))
@@ -649,12 +2006,12 @@ def geometry_check(chk, mod):
                 "; ".join(wrong) or None, file=rel, func=q_)
     # received blocks sit at a uniform, padded stride in the receive buffer (as the packer laid them out), whatever their true length
     envu2 = envu
-    lp_r = [n for n in ast.walk(unpack) if isinstance(n, ast.For) and isinstance(n.iter, ast.Call) and src(n.iter.func) == "range"
-            and isinstance(n.target, ast.Name)]
-    st_b = [n for n in ast.walk(unpack) if isinstance(n, ast.Assign) and src(n.targets[0]).replace(" ", "") == "bufRanges[0]"]
+    st_b = [n for n in ast.walk(unpack) if isinstance(n, ast.Assign) and isinstance(n.targets[0], ast.Subscript) and src(n.targets[0].slice) == "0"
+            and isinstance(n.targets[0].value, ast.Name) and n.targets[0].value.id in fu.lists and fu.lists[n.targets[0].value.id].kind == "slices"]
+    lp_r = [l_ for l_ in (loops_around(unpack, st_b[0]) if len(st_b) == 1 else []) if loop_index(l_)[0] is not None]
     oko, whyo = None, "offset of the received block in the buffer not recognised"
     if len(st_b) == 1 and lp_r:
-        rv = lp_r[0].target.id
+        rv = loop_index(lp_r[0])[0]
         v = st_b[0].value
         for _ in range(3):
             if isinstance(v, ast.Name):
@@ -672,6 +2029,14 @@ def geometry_check(chk, mod):
                         a0 = loc[0].value
                         continue
                 break
+            if isinstance(a0, ast.Name):
+                # an element of a sequence the loop runs over: `seq[r]`
+                for l_ in lp_r:
+                    seq = loop_index(l_)[1].get(a0.id)
+                    if seq is not None:
+                        a0 = ast.Subscript(value=expand(seq, envu2), slice=ast.Name(id=rv, ctx=ast.Load()), ctx=ast.Load())
+                        ast.fix_missing_locations(a0)
+                        break
             try:
                 a0x = expand(a0, {k_: v_ for k_, v_ in envu2.items() if k_ != rv})
             except Exception:
@@ -684,24 +2049,64 @@ def geometry_check(chk, mod):
                 if "mpi_starts" in t0 or (isinstance(a0, ast.Subscript) and isinstance(a0.value, ast.Name) and
                                           any("mpi_starts" in src(n.value) for n in ast.walk(unpack)
                                               if isinstance(n, ast.Assign) and src(n.targets[0]) == a0.value.id)):
-                    oko = False
-                    whyo = (f"block r is read from the receive buffer at `{src(a0)}`, the start of the block in the UNPADDED partition, but the "
-                            "sender packs every block with the padded length max_block_shape[axis[0]]: when the extent is not a multiple of "
-                            "the number of processes the blocks are read from the wrong offsets and the field is corrupted")
+                    # the reader uses the compact partition: wrong exactly when the writer spaces the blocks by the padded size
+                    padded_writer = bool(chk.__dict__.get("_c01_packer_uniform")) and bool(recv) and P is not None and "axis[0]" in P[1]
+                    if padded_writer:
+                        oko = False
+                        whyo = (f"block r is read from the receive buffer at `{src(a0)}`, the start of the block in the UNPADDED partition, but the "
+                                f"packer spaces the blocks by the padded size `{vp}` (G1-packer-advance) and Alltoall delivers equal chunks: when "
+                                "the extent is not a multiple of the number of processes the blocks are read from the wrong offsets and the "
+                                "field is corrupted")
+                    else:
+                        whyo = (f"block r is read at `{src(a0)}` (the compact partition); whether the packer lays the blocks out that way was "
+                                "not established")
     chk.ob("G1-unpacker-offset", st_b[0] if st_b else unpack, "bufRanges[0] = slice(r*max_block, r*max_block + length_r)", oko, whyo, file=rel,
            func=QU)
+    # the unpack loop visits every sending rank
+    dstores = [n for n in ast.walk(unpack) if isinstance(n, ast.Assign) and isinstance(n.targets[0], ast.Subscript) and loops_around(unpack, n)
+               and _flat_cut(unpack, n.targets[0].value, n, "data") is not None]
+    if dstores:
+        L_ = loops_around(unpack, dstores[0])[0]
+        outside = [n for n in ast.walk(unpack) if isinstance(n, ast.Assign) and isinstance(n.targets[0], ast.Subscript)
+                   and not any(L_ is l2 for l2 in loops_around(unpack, n)) and not _exclusive(n, L_)
+                   and _flat_cut(unpack, n.targets[0].value, n, "data") is not None]
+        rank_loop_coverage(chk, rel, unpack, QU, L_, envu, "unpacking loop over the sending ranks", peeled=outside[0] if outside else None)
+    else:
+        chk.ob("G1-rank-loop-coverage", unpack, "unpacking loop over the sending ranks", None,
+               "no store into the destination inside a loop over the ranks was found in the unpacker", file=rel, func=QU)
     _bufsize_rules(chk, rel, init, fi, envi, P)
     return fp, fu
 
 
 def bufsize_rules(chk, mod):
     """the buffer-size rules of LayoutHandler.__init__ on their own (G1-geometry-bufsize, G1-bufsize-max, G1-bufsize-init)"""
+    if not isinstance(mod, ModView):
+        mod = handler_view(chk, mod)
     pack, init = mod.func("LayoutHandler._extract_from_source"), mod.func("LayoutHandler.__init__")
     fp, fi = ShapeFlow(pack), ShapeFlow(init)
     vp = _block_size_var(fp)
     P = _canon(written_out(fp.prods[vp][0], inline_locals(pack))) if vp is not None else None
-    envi = {k: v for k, v in inline_locals(init).items() if k != "axis"}
+    envi = _init_env(init)
     _bufsize_rules(chk, mod.rel, init, fi, envi, P)
+
+
+def _pair_roles(init):
+    """{variable: role} of the two layouts of a connected pair in the constructor: the arguments of the `_get_swap_axes(a, b)` call
+    that yields the axis triple are (source, destination)"""
+    for c in ast.walk(init):
+        if isinstance(c, ast.Call) and isinstance(c.func, ast.Attribute) and c.func.attr == "_get_swap_axes":
+            m = {}
+            args = list(c.args) + [None, None]
+            a = args[0] if args[0] is not None else next((k.value for k in c.keywords if k.arg == "layout_source"), None)
+            b = args[1] if len(c.args) > 1 else next((k.value for k in c.keywords if k.arg == "layout_dest"), None)
+            if isinstance(a, ast.Name) and isinstance(b, ast.Name):
+                return {a.id: "layout_source", b.id: "layout_dest"}
+    return {"l1": "layout_source", "l2": "layout_dest"}
+
+
+def _init_env(init):
+    keep = {"axis"} | set(_pair_roles(init))
+    return {k: v for k, v in inline_locals(init).items() if k not in keep}
 
 
 def _bufsize_rules(chk, rel, init, fi, envi, P):
@@ -747,6 +2152,39 @@ def _bufsize_rules(chk, rel, init, fi, envi, P):
                 if not any("self._buffer_size" in src(t) for t, _, _ in guards_of(s_)) and "self._buffer_size" not in src(v):
                     mono = False          # plain overwrite: the last pair wins
         cands.append((s_, v, mono))
+    # ---- the same maximum written as a collection: candidates gathered in a local list, `max(list)` stored after the loop
+    first_vals = [(n, n.value) for n in first]
+    for n in list(first):
+        v = n.value
+        if isinstance(v, ast.Call) and src(v.func) in ("max", "min", "np.max", "np.min", "np.amax", "np.amin", "numpy.max", "numpy.min") \
+                and len(v.args) == 1 and isinstance(v.args[0], ast.Name) and not v.keywords:
+            lst = v.args[0].id
+            grows = "max" in src(v.func)
+            d = [x for x in ast.walk(init) if isinstance(x, ast.Assign) and len(x.targets) == 1 and src(x.targets[0]) == lst]
+            if len(d) != 1 or not isinstance(d[0].value, ast.List) or in_loop(d[0]):
+                continue
+            adds = []
+            for x in ast.walk(init):
+                if isinstance(x, ast.Call) and isinstance(x.func, ast.Attribute) and src(x.func.value) == lst:
+                    if x.func.attr == "append" and len(x.args) == 1:
+                        adds.append((x, x.args[0]))
+                    elif x.func.attr == "extend" and len(x.args) == 1 and isinstance(x.args[0], (ast.List, ast.Tuple)):
+                        adds += [(x, y) for y in x.args[0].elts]
+                    else:
+                        adds.append((x, None))
+                elif isinstance(x, ast.AugAssign) and src(x.target) == lst:
+                    if isinstance(x.op, ast.Add) and isinstance(x.value, (ast.List, ast.Tuple)):
+                        adds += [(x, y) for y in x.value.elts]
+                    else:
+                        adds.append((x, None))
+            if any(y is None for _, y in adds):
+                continue
+            first_vals = [(fn_, fv_) for fn_, fv_ in first_vals if fn_ is not n] + [(d[0], y) for y in d[0].value.elts] + \
+                [(x, y) for x, y in adds if not in_loop(x)]
+            for x, y in adds:
+                if in_loop(x):
+                    cands.append((x, y, True if grows else False))
+    sinks = [c[0] for c in cands]
     if not sinks:
         texts = " ".join(xsrc(n.value, envi) for n in stores)
         bad_ = None
@@ -781,7 +2219,7 @@ def _bufsize_rules(chk, rel, init, fi, envi, P):
                 unknown.append(" * ".join(src(f) for f in factors))
                 continue
             sl = written_out(block, envi)
-            I = canon_product(sl, {"l1": "layout_source", "l2": "layout_dest"})
+            I = canon_product(sl, _pair_roles(init))
             facts["init"] = str(I)
             if P is None:
                 unknown.append("packer block not extracted")
@@ -829,15 +2267,16 @@ def _bufsize_rules(chk, rel, init, fi, envi, P):
             file=rel, func=QI)
     # ---- initial value: a local block (covers the single-layout case)
     ok0, bad0 = None, None
-    if first:
-        t0 = xsrc(first[0].value, envi)
+    if first_vals:
+        fv0 = first_vals[0][1]
+        t0 = xsrc(fv0, envi)
         if ".size" in t0 or "max_block_size" in t0:
             ok0 = True
-        elif isinstance(first[0].value, ast.Constant):
-            bad0 = (f"the advertised size starts from the constant {first[0].value.value!r}: a handler with a single layout (no connected pair) "
+        elif isinstance(fv0, ast.Constant):
+            bad0 = (f"the advertised size starts from the constant {fv0.value!r}: a handler with a single layout (no connected pair) "
                     "advertises a size that does not cover its own block" +
-                    (", and size 0 marks a plot-only rank whose transposes do nothing" if first[0].value.value == 0 else ""))
-    chk.pat("G1-bufsize-init", first[0] if first else init, "self._buffer_size initial value", ok0,
+                    (", and size 0 marks a plot-only rank whose transposes do nothing" if fv0.value == 0 else ""))
+    chk.pat("G1-bufsize-init", first_vals[0][0] if first_vals else init, "self._buffer_size initial value", ok0,
             "initialised from a layout's block size (covers the single-layout case)", bad0, file=rel, func=QI, nontrivial=False)
 
 
@@ -1015,6 +2454,12 @@ def swap_axes_def_check(chk, mod):
     bad, und = [], []
     if other or src(loops[0].iter.args[0]) not in ("self._nprocsList", "self._nprocs"):
         und.append("list construction / loop range")
+    conv_note = ""
+    if got != want and sorted(got) == sorted(want) and len(got) == 3:
+        # the same three entries in another order: a convention; the consumers are read with the positions renumbered accordingly
+        # (handler_view), so their rules decide whether they follow it
+        conv_note = " (stored in the order " + ", ".join(f"axis[{got.index(w)}]" for w in want) + ")"
+        got = want
     if got != want:
         if all(vocab.fullmatch(g) for g in got) and not other:
             if len(got) == 2 and got == want[:2]:
@@ -1046,20 +2491,125 @@ def swap_axes_def_check(chk, mod):
     if okg is None:
         und.append("guard of the appends")
     ok = not bad and not und
-    chk.pat("G2-swap-axes-roles", fn, what, ok, good, "; ".join(bad) or None, file=rel, func=Q)
+    chk.pat("G2-swap-axes-roles", fn, what, ok, good + conv_note, "; ".join(bad) or None, file=rel, func=Q)
+
+
+def axis_convention(fn):
+    """the positions at which _get_swap_axes stores (process axis, position in the source, position in the destination), when it stores
+    exactly these three in some order: [p0, p1, p2] (reference: [0, 1, 2]); None when the producer is not read"""
+    env = inline_locals(fn)
+    loops = [n for n in ast.walk(fn) if isinstance(n, ast.For)]
+    rets = [n for n in ast.walk(fn) if isinstance(n, ast.Return) and n.value is not None]
+    if not (len(loops) == 1 and len(rets) == 1 and isinstance(rets[0].value, ast.Name) and isinstance(loops[0].target, ast.Tuple)
+            and len(loops[0].target.elts) == 2 and all(isinstance(e, ast.Name) for e in loops[0].target.elts)):
+        return None
+    lst = rets[0].value.id
+    iv, nv = (e.id for e in loops[0].target.elts)
+    entries = []
+    for n in ast.walk(loops[0]):
+        if isinstance(n, ast.Call) and isinstance(n.func, ast.Attribute) and src(n.func.value) == lst:
+            if n.func.attr == "append" and len(n.args) == 1:
+                entries.append((n.lineno, n.col_offset, [n.args[0]]))
+            elif n.func.attr == "extend" and len(n.args) == 1 and isinstance(n.args[0], (ast.List, ast.Tuple)):
+                entries.append((n.lineno, n.col_offset, list(n.args[0].elts)))
+            elif n.func.attr in ("extend", "insert", "pop", "remove", "clear"):
+                return None
+        elif isinstance(n, ast.AugAssign) and src(n.target) == lst:
+            if isinstance(n.op, ast.Add) and isinstance(n.value, (ast.List, ast.Tuple)):
+                entries.append((n.lineno, n.col_offset, list(n.value.elts)))
+            else:
+                return None
+    entries.sort(key=lambda x: (x[0], x[1]))
+    xenv = {k: v for k, v in env.items() if k not in (iv, nv, lst)}
+    got = [xsrc(e, xenv).replace(" ", "") for _, _, es in entries for e in es]
+    want = [iv, f"layout_source.dims_order.index(layout_dest.dims_order[{iv}])", f"layout_dest.dims_order.index(layout_source.dims_order[{iv}])"]
+    if len(got) == 3 and sorted(got) == sorted(want):
+        return [got.index(w) for w in want]
+    return None
+
+
+class _AxisRenumber(ast.NodeTransformer):
+    """axis[j] -> axis[canonical position of the role stored at j]"""
+
+    def __init__(self, to_canon):
+        self.m = to_canon
+
+    def visit_Subscript(self, node):
+        self.generic_visit(node)
+        if isinstance(node.value, ast.Name) and node.value.id == "axis" and isinstance(node.slice, ast.Constant) \
+                and isinstance(node.slice.value, int) and node.slice.value in self.m:
+            new = ast.copy_location(ast.Constant(value=self.m[node.slice.value]), node.slice)
+            new._axis_orig = node.slice.value
+            node.slice = new
+        return node
+
+
+def orig_src(node):
+    """source of a node of a renumbered view as it is written in the file (axis[j] with the file's own j)"""
+    swapped = []
+    for x in ast.walk(node):
+        if hasattr(x, "_axis_orig"):
+            swapped.append((x, x.value))
+            x.value = x._axis_orig
+    try:
+        return ast.unparse(node)
+    finally:
+        for x, v in swapped:
+            x.value = v
+
+
+_NEG_OP = {ast.Lt: ast.GtE, ast.GtE: ast.Lt, ast.Gt: ast.LtE, ast.LtE: ast.Gt, ast.Eq: ast.NotEq, ast.NotEq: ast.Eq,
+           ast.Is: ast.IsNot, ast.IsNot: ast.Is, ast.In: ast.NotIn, ast.NotIn: ast.In}
+
+
+def negate(test):
+    """the negation of a test as a list of conjuncts, or None (`not (a and b)` is not a conjunction)"""
+    if isinstance(test, ast.UnaryOp) and isinstance(test.op, ast.Not):
+        t = test.operand
+        return list(t.values) if isinstance(t, ast.BoolOp) and isinstance(t.op, ast.And) else [t]
+    if isinstance(test, ast.Compare) and len(test.ops) == 1 and type(test.ops[0]) in _NEG_OP:
+        return [ast.copy_location(ast.Compare(left=test.left, ops=[_NEG_OP[type(test.ops[0])]()], comparators=test.comparators), test)]
+    if isinstance(test, ast.BoolOp) and isinstance(test.op, ast.Or):
+        out = []
+        for v in test.values:
+            n = negate(v)
+            if n is None:
+                return None
+            out += n
+        return out
+    return None
 
 
 def guards_if(node, stop):
-    """conjuncts of the `if` tests a node is positively control dependent on, up to `stop`"""
+    """conjuncts of the conditions under which a node inside the loop `stop` is reached: the `if` tests it is control dependent on
+    (negated for an `else` arm) and the negations of the tests of earlier `if c: continue` statements of the loop body"""
     from ..core import guards_of
     out = []
     for test, pol, kind in guards_of(node, stop=stop):
-        if kind != "if" or not pol:
+        if kind != "if":
             return [ast.Constant(value="<unrecognised guard>")]
-        if isinstance(test, ast.BoolOp) and isinstance(test.op, ast.And):
-            out += list(test.values)
+        if pol:
+            out += list(test.values) if isinstance(test, ast.BoolOp) and isinstance(test.op, ast.And) else [test]
         else:
-            out.append(test)
+            n = negate(test)
+            if n is None:
+                return [ast.Constant(value="<unrecognised guard>")]
+            out += n
+    # early exits of the iteration before the statement
+    if isinstance(stop, (ast.For, ast.While)):
+        top = node
+        while parent(top) is not None and parent(top) is not stop:
+            top = parent(top)
+        for prev in stop.body:
+            if prev is top:
+                break
+            if isinstance(prev, ast.If) and not prev.orelse and len(prev.body) == 1 and isinstance(prev.body[0], ast.Continue):
+                n = negate(prev.test)
+                if n is None:
+                    return [ast.Constant(value="<unrecognised guard>")]
+                out += n
+            elif any(isinstance(x, (ast.Continue, ast.Break)) for x in ast.walk(prev)):
+                return [ast.Constant(value="<unrecognised guard>")]
     return out
 
 
@@ -1190,9 +2740,12 @@ def axis_index_space(chk, mod, fp, fu):
                 st = parent(st)
             role = {"1": "a position in the SOURCE ordering (where the dimension that becomes distributed sits)",
                     "2": "a position in the DESTINATION ordering (where the dimension that was distributed sits)"}.get(k, "")
-            chk.ob("G3-axis-index-space", n, src(n)[:80], ok,
-                   f"axis[{k}] subscripts a table of {cont}" if ok else
-                   f"`{src(n)[:60]}` (in `{src(st)[:70]}`) subscripts a table of {cont} by axis[{k}], which is {role}: the two coincide only when "
+            sl_ = n.slice if isinstance(n, ast.Subscript) else n.args[0]
+            ko = str(getattr(sl_.slice if isinstance(sl_, ast.Subscript) else sl_, "_axis_orig", k))
+            chk.ob("G3-axis-index-space", n, orig_src(n)[:80], ok,
+                   f"axis[{ko}] subscripts a table of {cont}" if ok else
+                   f"`{orig_src(n)[:60]}` (in `{orig_src(st)[:70]}`) subscripts a table of {cont} by axis[{ko}], which _get_swap_axes fills with "
+                   f"{role}: the two coincide only when "
                    "the layouts differ by a plain exchange of two axes, otherwise another axis of the block is cut / tested",
                    file=rel, func=q, nontrivial=(k != "0"))
     if n_sites < 6:
@@ -1227,65 +2780,197 @@ def run(chk):
 
 
 def engine(chk, rule, node, what, fn_, *a, file=None, func=None, **k):
-    """run an engine-backed rule; when the engine cannot EXTRACT what it needs (AnalysisError) the rule is undecided and the
-    remaining rules still run (so that a violation found elsewhere is still reported)"""
+    """run an engine-backed rule; when the engine cannot EXTRACT what it needs (AnalysisError, or a construct it does not expect)
+    the rule is undecided and the remaining rules still run (so that a violation found elsewhere is still reported)"""
     try:
         return fn_(*a, **k)
     except AnalysisError as e:
         chk.ob(rule, node, what, None, f"cannot decide: {e}", file=file, func=func)
         return None
+    except (IndexError, KeyError, AttributeError, TypeError, ValueError) as e:
+        chk.ob(rule, node, what, None, f"cannot decide: the engine met a construct it does not read ({type(e).__name__}: {e})", file=file, func=func)
+        return None
 
 
-ARRAYS = ("source", "dest", "buf", "data", "tobuffer")
+class ThreeValued:
+    """the obligations of the listed idiom rules of an engine arrive two-valued (recognised / not recognised): `not recognised` is
+    undecided here, not a violation (the decisive rules of the engine pass through unchanged)"""
+
+    def __init__(self, chk, rules):
+        self._chk, self._rules = chk, set(rules)
+
+    def ob(self, rule, node, construct, ok, msg="", **kw):
+        if rule in self._rules and ok is False:
+            ok, msg = None, "idiom not recognised: " + msg
+        return self._chk.ob(rule, node, construct, ok, msg, **kw)
+
+    def __getattr__(self, name):
+        return getattr(self._chk, name)
+
+
+def handler_view(chk, mod):
+    """the LayoutHandler routines as the shape-reading rules see them (unit_view of each, one per run)"""
+    cache = chk.__dict__.setdefault("_c01_hviews", {})
+    if mod.rel not in cache:
+        views = {}
+        want = has_call("_extract_from_source")
+        for nm in ("_transpose", "_transpose_source_intact"):
+            q = f"{CLS}.{nm}"
+            if mod.has(q):
+                views[q] = unit_view(mod, CLS, q, want=want)
+        for nm in ("_extract_from_source", "_rearrange_from_buffer", "__init__", "_get_swap_axes"):
+            q = f"{CLS}.{nm}"
+            if mod.has(q):
+                views[q] = unit_view(mod, CLS, q)
+        # a consistent renumbering of the axis triple is a convention: the consumers are read in the reference numbering
+        conv = axis_convention(mod.func(f"{CLS}._get_swap_axes")) if mod.has(f"{CLS}._get_swap_axes") else None
+        if conv is not None and conv != [0, 1, 2]:
+            to_canon = {p_: k for k, p_ in enumerate(conv)}
+            for q, v in views.items():
+                if not q.endswith("._get_swap_axes"):
+                    _AxisRenumber(to_canon).visit(v)
+                    ast.fix_missing_locations(v)
+        cache[mod.rel] = ModView(mod, views)
+    return cache[mod.rel]
+
+
+ARRAYS = ARRAY_NAMES
 
 
 def distinct_buffers(chk, mod, cls=CLS):
-    """D1-distinct-buffers: the transposes assume that the arrays they are given do not overlap (pack reads one while it fills the
-    other).  No routine may bind one array parameter to another, nor pass the same array for two array parameters of a routine."""
+    """D1-distinct-buffers: which array parameters of each routine must not overlap is derived from what the routine does with
+    them (Effects): a pair must differ when one is filled piece by piece from the other, when they are the send and receive buffer
+    of one collective, or when one is written before the other is read.  Passing one array for two parameters is a violation only
+    for such a pair (`buf=source` is the documented data flow of the transpose without a spare buffer: the source is dead once it
+    has been packed).  The call sites are checked here when the same parameter is passed twice; bindings that arise along a path
+    (a parameter rebound to another one, buffers exchanged in a loop) are checked by the field-location flow with the same pairs."""
     rel = mod.rel
-    meths = {m.name: m for m in mod.cls(cls).body if isinstance(m, ast.FunctionDef)}
+    effs = class_effects(mod, cls)
     n = 0
-    for name, m in meths.items():
-        params = [a.arg for a in m.args.args if a.arg in ARRAYS]
-        if len(params) < 2:
+    for name, e in effs.items():
+        if len(e.params) < 2:
             continue
         n += 1
-        bad = []
-        for st in ast.walk(m):
-            if isinstance(st, ast.Assign) and len(st.targets) == 1 and isinstance(st.targets[0], ast.Name) and st.targets[0].id in params \
-                    and isinstance(st.value, ast.Name) and st.value.id in params and st.value.id != st.targets[0].id:
-                bad.append((st, f"`{src(st)}` makes the parameter `{st.targets[0].id}` denote the same array as `{st.value.id}`: every routine below "
-                            "assumes source, dest and buf do not overlap - the packer then writes the padded send blocks into the array it is "
-                            "still reading, later blocks are built from overwritten data"))
-            if isinstance(st, ast.Call) and isinstance(st.func, ast.Attribute) and isinstance(st.func.value, ast.Name) and st.func.value.id == "self" \
-                    and st.func.attr in meths:
-                cm = call_args(st, meths[st.func.attr])
-                if cm is None:
-                    continue
-                arr = [(k, v.id) for k, v in cm.items() if k in ARRAYS and isinstance(v, ast.Name)]
-                seen = {}
-                for k, v in arr:
-                    if v in seen:
-                        bad.append((st, f"`{src(st)[:80]}` passes the array `{v}` both as `{seen[v]}` and as `{k}` of {st.func.attr}: the two are "
-                                    "assumed not to overlap (one is read while the other is written)"))
-                    seen.setdefault(v, k)
-        chk.ob("D1-distinct-buffers", bad[0][0] if bad else m, f"{cls}.{name}: array parameters stay distinct", not bad,
-               "no array parameter is bound to another one and no call passes one array for two array parameters" if not bad else
+        bad = e.static_alias
+        pairs = ", ".join("{" + ", ".join(sorted(p_)) + "}" for p_ in sorted(e.pairs, key=lambda x: sorted(x)) if e.hard.get(p_, True)) or "none"
+        chk.ob("D1-distinct-buffers", bad[0][0] if bad else e.fn, f"{cls}.{name}: arrays that must not overlap are distinct at every call", not bad,
+               f"parameters that must not overlap: {pairs}; no call passes one array for both members of such a pair" if not bad else
                "; ".join(dict.fromkeys(b for _, b in bad)), file=rel, func=f"{cls}.{name}")
     if n < 3:
         chk.ob("D1-distinct-buffers", mod.cls(cls), f"routines of {cls} with several array parameters", None,
                f"only {n} routines with two or more of the array parameters {ARRAYS} found", file=rel, func=cls)
 
 
+_ALLOC = {"empty", "zeros", "ones", "full", "ndarray"}
+_ALLOC_LIKE = {"empty_like", "zeros_like", "ones_like", "full_like"}
+
+
+def payload_dtype(chk, mod, cls=CLS):
+    """D6-payload-dtype: the transposes move fields of any element type (float, complex, int).  A temporary array that carries
+    field data between two of the caller's arrays must have the type of the data: `np.empty(shape)` is float64 whatever the field
+    is, so a complex field loses its imaginary part on the way (numpy only warns)."""
+    rel = mod.rel
+    rule = "D6-payload-dtype"
+    n_meth = 0
+    for name, fn in class_methods(mod, cls).items():
+        params = [a.arg for a in fn.args.args if a.arg in ARRAY_NAMES]
+        if not params:
+            continue
+        n_meth += 1
+        # which parameters each local is a view of / was filled from (flow-insensitive, to a fixed point)
+        roots = {p_: {p_} for p_ in params}
+        temps = {}        # local name -> (allocation call, verdict, text)
+        for n in ast.walk(fn):
+            if isinstance(n, ast.Assign) and len(n.targets) == 1 and isinstance(n.targets[0], ast.Name) and isinstance(n.value, ast.Call) \
+                    and isinstance(n.value.func, ast.Attribute) and isinstance(n.value.func.value, ast.Name) and n.value.func.value.id in ("np", "numpy") \
+                    and n.value.func.attr in _ALLOC | _ALLOC_LIKE:
+                temps[n.targets[0].id] = n.value
+        for _ in range(5):
+            changed = False
+            for n in ast.walk(fn):
+                if isinstance(n, ast.Assign):
+                    for t in n.targets:
+                        if isinstance(t, ast.Name) and t.id not in temps:
+                            r = _view_roots(n.value, roots)
+                            if r - roots.get(t.id, set()):
+                                roots.setdefault(t.id, set()).update(r)
+                                changed = True
+                elif isinstance(n, (ast.For, ast.comprehension)):
+                    r = _view_roots(n.iter, roots)
+                    for x in ast.walk(n.target):
+                        if isinstance(x, ast.Name) and r - roots.get(x.id, set()):
+                            roots.setdefault(x.id, set()).update(r)
+                            changed = True
+            if not changed:
+                break
+        filled, drained = {}, {}
+        for n in ast.walk(fn):
+            if isinstance(n, (ast.Assign, ast.AugAssign)):
+                tg = n.targets if isinstance(n, ast.Assign) else [n.target]
+                for t in tg:
+                    if not isinstance(t, ast.Subscript):
+                        continue
+                    b = t.value
+                    while isinstance(b, (ast.Subscript, ast.Attribute)):
+                        b = b.value
+                    if isinstance(b, ast.Name) and b.id in temps and _read_roots(n.value, roots):
+                        filled.setdefault(b.id, n)
+                    if _view_roots(t.value, roots):
+                        for x in ast.walk(n.value):
+                            if isinstance(x, ast.Name) and x.id in temps:
+                                drained.setdefault(x.id, n)
+            elif isinstance(n, ast.Call) and isinstance(n.func, ast.Attribute) and n.func.attr in _COLLECTIVES:
+                for a in n.args[:2]:
+                    for x in ast.walk(a):
+                        if isinstance(x, ast.Name) and x.id in temps:
+                            drained.setdefault(x.id, n)
+                            filled.setdefault(x.id, n)
+        for t, call in temps.items():
+            if t not in filled or t not in drained:
+                continue
+            like = call.func.attr in _ALLOC_LIKE
+            dt = [k.value for k in call.keywords if k.arg == "dtype"]
+            if not dt and not like and len(call.args) >= 2 and call.func.attr != "full":
+                dt = [call.args[1]]
+            if not dt and call.func.attr == "full" and len(call.args) >= 3:
+                dt = [call.args[2]]
+            ok, why = None, ""
+            if not dt and like and call.args and _view_roots(call.args[0], roots):
+                ok, why = True, f"`{src(call)[:60]}` takes the type of the data it is modelled on"
+            elif dt and isinstance(dt[0], ast.Attribute) and dt[0].attr == "dtype" and _view_roots(dt[0].value, roots):
+                ok, why = True, f"`{src(call)[:60]}` is allocated with the type of the caller's array"
+            elif not dt and not like:
+                ok = False
+                why = (f"`{t} = {src(call)[:50]}` is a float64 array whatever the type of the field; it is filled from the caller's data "
+                       f"(`{src(filled[t])[:60]}`) and copied on (`{src(drained[t])[:60]}`): a complex field loses its imaginary part on the way "
+                       "(numpy only issues a ComplexWarning), float/int fields are unaffected")
+            elif dt and src(dt[0]) in ("float", "np.float64", "np.double", "'d'", "'float64'", "np.float32", "'f'", "int", "np.int64"):
+                ok = False
+                why = (f"`{t} = {src(call)[:60]}` has the fixed type `{src(dt[0])}`; it carries the caller's data "
+                       f"(`{src(filled[t])[:50]}` ... `{src(drained[t])[:50]}`): fields of another element type (complex) are truncated")
+            else:
+                why = f"the element type of the temporary `{t} = {src(call)[:60]}`, which carries field data, was not recognised"
+            chk.ob(rule, call, f"{cls}.{name}: {t} = {src(call)[:60]}", ok, why, file=rel, func=f"{cls}.{name}")
+    chk.ob(rule, mod.cls(cls), f"temporaries of {cls} that carry field data", True if n_meth else None,
+           f"{n_meth} routines with array parameters read: every temporary array that carries field data is listed above (none: the data "
+           "only moves between the caller's arrays, whose type is the caller's)" if n_meth else "no routine with array parameters found",
+           file=rel, func=cls, nontrivial=False)
+
+
 def handler_contract(chk, mod):
     """the element-placement part of the handler's contract: geometry, axis roles, permutations, read-only route map"""
     distinct_buffers(chk, mod)
+    payload_dtype(chk, mod)
+    raw = mod
+    mod = handler_view(chk, raw)
     fp, fu = geometry_check(chk, mod)
     comm_axis_check(chk, mod)
     swap_axes_def_check(chk, mod)
     swap_index_check(chk, mod, fp, fu)
     engine(chk, "P1-transpose-permutation", mod.func(f"{CLS}._transpose"), "permutation typing of the handler's array stores",
-           permcheck.check_layout_handler, chk, mod, file=U.LAYOUT, func=f"{CLS}._transpose")
+           permcheck.check_layout_handler, ThreeValued(chk, ("P1-packer-input-view", "P1-consistent-swaps")), mod, file=U.LAYOUT,
+           func=f"{CLS}._transpose")
+    mod = raw
     # the cached route map is only read by the transposes
     from .. import lints
     for q in (f"{CLS}.transpose", f"{CLS}._transposeRedirect", f"{CLS}._transposeRedirect_source_intact"):
